@@ -1,6 +1,9 @@
-(* FullCompile-Bridge, item 3 (C06), PART 3: the induction generalised to the whole compiler stack (function definitions,
-   closures, upvalue resolution through enclosing functions) and to back-patched jumps.  Infrastructure (monad
-   inversion, `emitted`, `crel`, `Lrel`, ...) is imported from FullBridgeC06Ind.v.  See notes/FullBridge-C06.md. *)
+(* FullCompile-Bridge, item 3 (C06), PART 3: THE induction over the syntax, for the whole compiler stack and the whole
+   stage-5 fragment: FullCompile.cexpr / cstmt on tr_* against the pure compiler nexpr / nstmt of ScopeDefsN.v / ScopeDefs5.v
+   (function definitions, closures, upvalue resolution through enclosing functions, back-patched jumps of if / for / try,
+   break / continue).  Headline theorems: bridge_C06_stage5, C06_full_compile_scope_correct_stage5 (end of the file).
+   Infrastructure (monad inversion, `emitted`, `crel`, `Lrel`, ...) is imported from FullBridgeC06Ind.v.
+   See notes/FullBridge-C06.md. *)
 From Coq Require Import Strings.Byte Strings.String Strings.Ascii.
 From Coq Require Import List NArith ZArith Bool Arith Lia.
 From Coq Require Import Floats.SpecFloat.
@@ -484,7 +487,7 @@ Definition lcrel (inloop : bool) (lc : option SN.lctx) (c : comp) : Prop :=
   match lc with
   | None => True
   | Some l => exists td rl b0 br, k_loops c = (SN.lc_start l, SN.lc_depth l, td) :: rl /\ k_breaks c = b0 :: br /\
-                                  (inloop = true -> td = k_try_depth c)
+                                  (inloop = true -> td = k_try_depth c) /\ SN.lc_start l <= length (k_code c)
   end.
 Definition lc_exit_of (lc : option SN.lctx) : nat := match lc with Some l => SN.lc_exit l | None => 0 end.
 
@@ -498,7 +501,8 @@ Record S_pre (st : cstate) (L : list SC.local) (d : nat) (U : SC.ups_t) (E : lis
   p_num : exists fs0 fm, dec_consts (k_consts (s_cur st)) base = Some (fs0, fm) /\ fs = pre ++ fs0;
   p_base : length pre = base;
   p_fun : infun = true -> k_in_try (s_cur st) = false /\ k_kind (s_cur st) = KFunction;
-  p_lc : lcrel inloop lc (s_cur st)
+  p_lc : lcrel inloop lc (s_cur st);
+  p_len : length (k_locals (s_cur st)) <= 256
 }.
 
 Definition S_postT (T : list item) (more : list const) (kl' : list klocal)
@@ -507,6 +511,7 @@ Definition S_postT (T : list item) (more : list const) (kl' : list klocal)
     gstep st st' (raw T) more kl' d (k_upvalues (s_cur st')) (push_holes (holes T) (k_breaks (s_cur st))) /\
     wfT pos T /\ (lc = None -> holes T = []) /\
     Lrel L' kl' /\ urel U' (k_upvalues (s_cur st')) /\ Erel E' (s_outer st') /\ Oframe (s_outer st) (s_outer st') /\
+    length kl' <= 256 /\
     exists fs0' fm', dec_consts (k_consts (s_cur st')) base = Some (fs0', fm') /\ fs' = pre ++ fs0' /\
       forall KS FM, ext (k_consts (s_cur st')) KS -> ext fm' FM -> crel KS FM (filled (lc_exit_of lc) T) code.
 
@@ -569,26 +574,26 @@ Qed.
 (* a statement that defines no function and leaves no pending jump *)
 Lemma S_post_build st st' d pos lc B more kl' code L' U' E' base pre fs :
   gstep st st' B more kl' d (k_upvalues (s_cur st')) (k_breaks (s_cur st)) -> Forall nofun more ->
-  Lrel L' kl' -> urel U' (k_upvalues (s_cur st')) -> Erel E' (s_outer st') -> Oframe (s_outer st) (s_outer st') ->
+  Lrel L' kl' -> length kl' <= 256 -> urel U' (k_upvalues (s_cur st')) -> Erel E' (s_outer st') -> Oframe (s_outer st) (s_outer st') ->
   (exists fs0 fm, dec_consts (k_consts (s_cur st)) base = Some (fs0, fm) /\ fs = pre ++ fs0) ->
   (forall KS FM, ext (k_consts (s_cur st')) KS -> crel KS FM B code) ->
   S_post st st' d pos lc code L' U' E' base pre fs.
 Proof.
-  intros Hg Hn HL HU HE HO (fs0 & fm & Hd & Hfs) Hk.
+  intros Hg Hn HL Hlen HU HE HO (fs0 & fm & Hd & Hfs) Hk.
   exists (map IB B), more, kl'. split; [apply noIJ_IB|]. unfold S_postT. rewrite raw_IB, holes_IB, push_holes_nil.
   split; [exact Hg|]. split; [apply wfT_IB|]. split; [reflexivity|]. split; [exact HL|]. split; [exact HU|].
-  split; [exact HE|]. split; [exact HO|].
+  split; [exact HE|]. split; [exact HO|]. split; [exact Hlen|].
   destruct (gstep_fields _ _ _ _ _ _ _ _ Hg) as (Hc & _).
   exists fs0, (fm ++ repeat 0 (length more)). split; [rewrite Hc; now apply dec_consts_nofun|]. split; [exact Hfs|].
   intros KS FM He _. rewrite filled_IB. now apply Hk.
 Qed.
 
 Lemma S_post_of_E st st' L d pos lc is U' E' base pre fs :
-  E_post st st' is U' E' -> Lrel L (k_locals (s_cur st)) -> k_scope (s_cur st) = d ->
+  E_post st st' is U' E' -> Lrel L (k_locals (s_cur st)) -> length (k_locals (s_cur st)) <= 256 -> k_scope (s_cur st) = d ->
   (exists fs0 fm, dec_consts (k_consts (s_cur st)) base = Some (fs0, fm) /\ fs = pre ++ fs0) ->
   S_post st st' d pos lc is L U' E' base pre fs.
 Proof.
-  intros (B & more & Hs & HU & HE & HO & Hn & Hk) HL Hd Hnum.
+  intros (B & more & Hs & HU & HE & HO & Hn & Hk) HL Hlen Hd Hnum.
   unfold ustep in Hs. rewrite Hd in Hs.
   eapply S_post_build; eauto.
 Qed.
@@ -597,7 +602,7 @@ Lemma S_postT_len T more kl' st st' d pos lc code L' U' E' base pre fs' :
   S_postT T more kl' st st' d pos lc code L' U' E' base pre fs' ->
   length (raw T) = SC.code_size code /\ length (k_code (s_cur st')) = length (k_code (s_cur st)) + SC.code_size code.
 Proof.
-  intros ((Hc & _) & _ & _ & _ & _ & _ & _ & fs0' & fm' & _ & _ & Hk).
+  intros ((Hc & _) & _ & _ & _ & _ & _ & _ & _ & fs0' & fm' & _ & _ & Hk).
   assert (Hl : length (raw T) = SC.code_size code).
   { rewrite <- (raw_filled_len (lc_exit_of lc)). eapply crel_len. apply (Hk _ _ (ext_refl _) (ext_refl _)). }
   split; [exact Hl|]. rewrite Hc, app_length. lia.
@@ -614,14 +619,14 @@ Lemma S_postT_seq T1 m1 kl1 T2 m2 kl2 st s1 st' d1 d pos lc c1 c2 L1 U1 E1 L2 U2
   S_postT (T1 ++ T2) (m1 ++ m2) kl2 st st' d pos lc (c1 ++ c2) L2 U2 E2 base pre fs2.
 Proof.
   intros P1 P2. destruct (S_postT_len _ _ _ _ _ _ _ _ _ _ _ _ _ _ _ P1) as (Hlen1 & _).
-  destruct P1 as (Hg1 & Hw1 & Hh1 & HL1 & HU1 & HE1 & HO1 & fa & fma & Hda & Hfa & Hk1).
-  destruct P2 as (Hg2 & Hw2 & Hh2 & HL2 & HU2 & HE2 & HO2 & fb & fmb & Hdb & Hfb & Hk2).
+  destruct P1 as (Hg1 & Hw1 & Hh1 & HL1 & HU1 & HE1 & HO1 & Hn1 & fa & fma & Hda & Hfa & Hk1).
+  destruct P2 as (Hg2 & Hw2 & Hh2 & HL2 & HU2 & HE2 & HO2 & Hn2 & fb & fmb & Hdb & Hfb & Hk2).
   unfold S_postT. rewrite raw_app, holes_app, push_holes_app.
   destruct (gstep_fields _ _ _ _ _ _ _ _ Hg1) as (Hc1 & _ & _ & _ & Hb1 & _).
   split. { rewrite Hb1 in Hg2. exact (gstep_trans _ _ _ _ _ _ _ _ _ _ _ _ _ _ _ Hg1 Hg2). }
   split. { apply wfT_app; [exact Hw1|]. rewrite Hlen1. exact Hw2. }
   split. { intros Hn. now rewrite (Hh1 Hn), (Hh2 Hn). }
-  split; [exact HL2|]. split; [exact HU2|]. split; [exact HE2|]. split; [exact (Oframe_trans _ _ _ HO1 HO2)|].
+  split; [exact HL2|]. split; [exact HU2|]. split; [exact HE2|]. split; [exact (Oframe_trans _ _ _ HO1 HO2)|]. split; [exact Hn2|].
   exists fb, fmb. split; [exact Hdb|]. split; [exact Hfb|].
   intros KS FM He Hf. rewrite filled_app.
   destruct (gstep_fields _ _ _ _ _ _ _ _ Hg2) as (Hc2 & _).
@@ -647,7 +652,7 @@ Lemma S_pre_nextT T more kl' st s1 L d0 d U E fs pos lc base pre infun inloop c1
   S_pre s1 L1 d U1 E1 fs1 (pos + SC.code_size c1) lc base pre infun inloop.
 Proof.
   intros Hp P. destruct (S_postT_len _ _ _ _ _ _ _ _ _ _ _ _ _ _ _ P) as (_ & Hlen).
-  destruct P as (Hg & Hw & Hh & HL & HU & HE & HO & fs0' & fm' & Hd & Hfs & Hk).
+  destruct P as (Hg & Hw & Hh & HL & HU & HE & HO & Hnl & fs0' & fm' & Hd & Hfs & Hk).
   destruct (gstep_fields _ _ _ _ _ _ _ _ Hg) as (Hc & Hl & Hsc & Hup & Hb & Hkind & Hit & Htd & Hlo & Har).
   destruct Hp. constructor; auto.
   - now rewrite Hl.
@@ -655,7 +660,9 @@ Proof.
   - eauto.
   - rewrite Hit, Hkind. exact p_fun0.
   - unfold lcrel in *. destruct lc as [l|]; [|exact I].
-    destruct p_lc0 as (td & rl & b0 & br & H1 & H2 & H3). rewrite Hlo, Hb, H2, Htd. cbn [push_holes]. eauto 8.
+    destruct p_lc0 as (td & rl & b0 & br & H1 & H2 & H3 & H4). rewrite Hlo, Hb, H2, Htd. cbn [push_holes].
+    exists td, rl, (rev (holes T) ++ b0), br. repeat split; auto. lia.
+  - now rewrite Hl.
 Qed.
 
 Lemma S_pre_next st s1 L d0 d U E fs pos lc base pre infun inloop c1 L1 U1 E1 fs1 :
@@ -667,18 +674,31 @@ Proof. intros Hp (T & more & kl' & _ & P). eapply S_pre_nextT; eassumption. Qed.
 (* ------------------------------------------------------------------------------------------ *)
 (* E. statements without jumps and without function definitions *)
 
+Lemma declare_variable_len x l s u s' : declare_variable x l s = COk (u, s') ->
+  k_scope (s_cur s) <> 0 -> length (k_locals (s_cur s)) <> 256.
+Proof.
+  unfold declare_variable. intros H Hz. apply bind_inv in H as (k & sk & Hk & H). unfold cur in Hk. inversion Hk; subst k sk. clear Hk.
+  destruct (Nat.eqb_spec (k_scope (s_cur s)) 0) as [Hz'|_]; [contradiction|].
+  destruct (declared_in_scope x (k_scope (s_cur s)) (k_locals (s_cur s))); [discriminate|].
+  apply bind_inv in H as (ok & s1 & Ha & H). unfold add_local in Ha.
+  apply bind_inv in Ha as (k & sk & Hk & Ha). unfold cur in Hk. inversion Hk; subst k sk. clear Hk.
+  destruct (Nat.eqb_spec (length (k_locals (s_cur s))) LOCALS_MAX) as [He|Hne].
+  - unfold cret in Ha. inversion Ha; subst. discriminate.
+  - exact Hne.
+Qed.
+
 Lemma gstep_ups s s' B m kl d u b : gstep s s' B m kl d u b -> gstep s s' B m kl d (k_upvalues (s_cur s')) b.
 Proof. intros H. destruct (gstep_fields _ _ _ _ _ _ _ _ H) as (_ & _ & _ & -> & _). exact H. Qed.
 
 (* a step of plain bytes that may replace locals and scope depth, as a statement post-condition *)
 Lemma S_post_step st st' L d0 d U E fs pos lc base pre infun inloop B kl' L' code :
   S_pre st L d0 U E fs pos lc base pre infun inloop ->
-  step st st' B [] kl' d -> Lrel L' kl' -> (forall KS FM, crel KS FM B code) ->
+  step st st' B [] kl' d -> Lrel L' kl' -> length kl' <= 256 -> (forall KS FM, crel KS FM B code) ->
   S_post st st' d pos lc code L' U E base pre fs.
 Proof.
-  intros Hp Hs HL Hk. destruct (step_gstep _ _ _ _ _ _ Hs) as (Hg & Ho). destruct Hp.
+  intros Hp Hs HL Hlen Hk. destruct (step_gstep _ _ _ _ _ _ Hs) as (Hg & Ho). destruct Hp.
   destruct (gstep_fields _ _ _ _ _ _ _ _ Hg) as (_ & _ & _ & Hu & _).
-  eapply S_post_build; [exact (gstep_ups _ _ _ _ _ _ _ _ Hg)|constructor|exact HL| | | |exact p_num0|intros; apply Hk].
+  eapply S_post_build; [exact (gstep_ups _ _ _ _ _ _ _ _ Hg)|constructor|exact HL|exact Hlen| | | |exact p_num0|intros; apply Hk].
   - now rewrite Hu.
   - now rewrite Ho.
   - rewrite Ho. apply Oframe_refl.
@@ -740,7 +760,7 @@ Proof.
   - unfold rest in *. cbn in *. injection G2; intros. rewrite app_nil_r. congruence.
 Qed.
 
-(* the constructs the induction below covers (extended as cases are added; see notes/FullBridge-C06.md) *)
+(* the constructs the induction below covers: all of the stage-5 fragment (stmt7_sup) *)
 Fixpoint sup (s : SL.stmt) : bool :=
   match s with
   | SL.SDecl _ _ | SL.SAssign _ _ | SL.SPrint _ | SL.SExpr _ | SL.SReturn _ | SL.SThrow _ => true
@@ -748,6 +768,8 @@ Fixpoint sup (s : SL.stmt) : bool :=
   | SL.SFun _ _ b | SL.SLam _ _ b => forallb sup b
   | SL.SIf _ _ t e => forallb sup t && forallb sup e
   | SL.STry b _ h => forallb sup b && forallb sup h
+  | SL.SLoop _ _ b => forallb sup b
+  | SL.SBreak | SL.SContinue => true
   | _ => false
   end.
 
@@ -772,7 +794,7 @@ Proof.
   induction 1 as [|s r Hs Hr IH]; unfold L_goal; intros infun top inloop Hsup Hf Hp L d U E fs pos lc code L' U' E' fs' st st' base pre Hn Hc Hpre.
   - cbn in Hn, Hc. inversion Hn; inversion Hc; subst.
     pose proof (step_id st') as Hid. rewrite (p_d _ _ _ _ _ _ _ _ _ _ _ _ Hpre) in Hid.
-    eapply S_post_step; [exact Hpre|exact Hid|destruct Hpre; assumption|intros; constructor].
+    eapply S_post_step; [exact Hpre|exact Hid|destruct Hpre; assumption|apply Hpre|intros; constructor].
   - cbn [forallb] in Hsup, Hf, Hp. apply andb_prop in Hsup as [Hs1 Hs2]. apply andb_prop in Hf as [Hf1 Hf2]. apply andb_prop in Hp as [Hp1 Hp2].
     cbn [ScopeDefs5.nlist] in Hn.
     destruct (ScopeDefs5.nstmt cf s L d U E fs pos lc) as [[[[[ca L1] U1] E1] fs1]|] eqn:E1'; [|discriminate].
@@ -798,7 +820,7 @@ Proof.
   injection Hn; intros; subst code L' U' E' fs'. clear Hn.
   apply begin_scope_e in H1. rewrite (p_d _ _ _ _ _ _ _ _ _ _ _ _ Hpre) in H1.
   assert (P0 : S_post st s1 (S d) pos lc [] L U E base pre fs).
-  { eapply S_post_step; [exact Hpre|exact H1|destruct Hpre; assumption|intros; constructor]. }
+  { eapply S_post_step; [exact Hpre|exact H1|destruct Hpre; assumption|apply Hpre|intros; constructor]. }
   pose proof (S_pre_next _ _ _ _ _ _ _ _ _ _ _ _ _ _ _ _ _ _ _ Hpre P0) as Hpre1.
   cbn [SC.code_size] in Hpre1. rewrite Nat.add_0_r in Hpre1.
   pose proof (HLg _ _ _ Hsup Hf Hp _ _ _ _ _ _ _ _ _ _ _ _ _ _ _ _ Eb H2 Hpre1) as P1.
@@ -808,8 +830,9 @@ Proof.
   destruct (scope_end_agree [] [] d _ _ HL1) as (_ & Hlen).
   assert (P2 : S_post s2 s3 d (pos + SC.code_size cb) lc (SC.scope_end_ops L1 d)
                       (skipn (length (SC.scope_end_ops L1 d)) L1) U1 E1 base pre fs1).
-  { eapply S_post_step; [exact Hpre2|exact Hs3| |].
+  { eapply S_post_step; [exact Hpre2|exact Hs3| | |].
     - rewrite <- Hlen. now apply Lrel_skipn.
+    - rewrite skipn_length. pose proof (p_len _ _ _ _ _ _ _ _ _ _ _ _ Hpre2). lia.
     - intros KS FM. now apply scope_end_agree. }
   change (cb ++ SC.scope_end_ops L1 d) with ([] ++ cb ++ SC.scope_end_ops L1 d).
   eapply S_post_seq; [exact P0|]. cbn [SC.code_size]. rewrite Nat.add_0_r.
@@ -837,11 +860,11 @@ Qed.
 Lemma cparams_ok l : forall ps Lb Lp st st',
   ScopeDefs2.bparams cf ps Lb = Some Lp ->
   cparams (map tr_name ps) l st = COk (tt, st') ->
-  Lrel Lb (k_locals (s_cur st)) -> k_scope (s_cur st) = 1 ->
-  exists kl', pstep st st' kl' (k_arity (s_cur st) + N.of_nat (length ps))%N /\ Lrel Lp kl'.
+  Lrel Lb (k_locals (s_cur st)) -> k_scope (s_cur st) = 1 -> length (k_locals (s_cur st)) <= 256 ->
+  exists kl', pstep st st' kl' (k_arity (s_cur st) + N.of_nat (length ps))%N /\ Lrel Lp kl' /\ length kl' <= 256.
 Proof.
-  induction ps as [|p r IH]; intros Lb Lp st st' Hb Hc HL Hd.
-  - cbn in Hb, Hc. inversion Hb; inversion Hc; subst. exists (k_locals (s_cur st')). split; [|exact HL].
+  induction ps as [|p r IH]; intros Lb Lp st st' Hb Hc HL Hd Hlen.
+  - cbn in Hb, Hc. inversion Hb; inversion Hc; subst. exists (k_locals (s_cur st')). split; [|split; [exact HL|exact Hlen]].
     repeat split. unfold rest. cbn. now rewrite N.add_0_r.
   - cbn [ScopeDefs2.bparams] in Hb. destruct (SC.dup_in_scope Lb p 1); [discriminate|].
     destruct (Nat.eqb (length Lb) (SC.c_locals_max cf)); [discriminate|].
@@ -855,6 +878,8 @@ Proof.
     set (sa := mkS (with_arity (s_cur st) (k_arity (s_cur st) + 1)) (s_outer st) (s_classes st) (s_line st)) in *.
     assert (P0 : pstep st sa (k_locals (s_cur st)) (k_arity (s_cur st) + 1)%N) by (repeat split).
     unfold parse_variable in Hpv. binv Hpv. destruct a. bcur Hpv.
+    pose proof (declare_variable_len _ _ _ _ _ Hpv0) as Hdl. cbn [sa s_cur k_scope k_locals with_arity] in Hdl.
+    assert (Hdl' : length (k_locals (s_cur st)) <> 256) by (apply Hdl; rewrite Hd; discriminate).
     apply declare_variable_e in Hpv0 as [[Hz _]|[_ Hs1]]; [cbn in Hz; congruence|].
     cbn [sa s_cur k_scope with_arity k_locals] in Hs1. 
     destruct (step_fields _ _ _ _ _ _ Hs1) as (_ & Hl1 & Hd1 & _). cbn [sa s_cur k_scope with_arity] in Hd1.
@@ -876,8 +901,11 @@ Proof.
       constructor; [repeat split|exact HL]. }
     assert (Hd3 : k_scope (s_cur s1) = 1).
     { destruct P3 as (_ & _ & R). unfold rest in R. cbn in R. injection R; intros. congruence. }
-    destruct (IH _ _ _ _ Hb Hc HL1 Hd3) as (kl' & P4 & HLp).
-    exists kl'. split; [|exact HLp].
+    assert (Hlen1 : length (k_locals (s_cur s1)) <= 256).
+    { destruct P3 as (_ & _ & R). unfold rest in R. cbn in R. injection R; intros.
+      replace (k_locals (s_cur s1)) with (mkKL (tr_name p) (Some 1) false :: k_locals (s_cur st)) by congruence. cbn [length]. lia. }
+    destruct (IH _ _ _ _ Hb Hc HL1 Hd3 Hlen1) as (kl' & P4 & HLp & Hlp).
+    exists kl'. split; [|split; [exact HLp|exact Hlp]].
     assert (Ha1 : k_arity (s_cur s1) = (k_arity (s_cur st) + 1)%N).
     { destruct P3 as (_ & _ & R). unfold rest in R. cbn in R. injection R; intros. assumption. }
     rewrite Ha1 in P4. replace (k_arity (s_cur st) + N.of_nat (length (p :: r)))%N with (k_arity (s_cur st) + 1 + N.of_nat (length r))%N
@@ -938,9 +966,9 @@ Proof.
   pose proof H2 as (Hcode2 & Ho2 & _). cbn [s_cur s_outer new_comp k_code k_consts k_upvalues k_kind k_in_try k_try_depth k_loops k_breaks k_arity app] in *.
   assert (HL2 : Lrel [SC.mkLocal None (Some 0) false] (k_locals (s_cur s2))).
   { rewrite Hl2. constructor; [|constructor]. repeat split. }
-  destruct (cparams_ok l1 _ _ _ _ _ Ebp H3 HL2 Hd2) as (klp & (Hcode3 & Ho3 & Hr3) & HLp).
+  destruct (cparams_ok l1 _ _ _ _ _ Ebp H3 HL2 Hd2 ltac:(rewrite Hl2; cbn; lia)) as (klp & (Hcode3 & Ho3 & Hr3) & HLp & Hlp).
   unfold rest in Hr3. cbn in Hr3. injection Hr3; intros Kbr Klo Ktd Kit Ksc Kup Klo' Kco Kar Kki.
-  destruct Hpre as [pL pU pE pd ppos (fs0 & fm & pnum & pfs) pbase pfun plc].
+  destruct Hpre as [pL pU pE pd ppos (fs0 & fm & pnum & pfs) pbase pfun plc plen].
   assert (Hpre3 : S_pre s3 Lp 1 [] (SN.mkLev L1 U :: E) fs 0 None (length fs) fs true false).
   { constructor.
     - now rewrite Klo'.
@@ -951,9 +979,10 @@ Proof.
     - exists [], []. rewrite Kco, Hc2. split; [reflexivity|now rewrite app_nil_r].
     - reflexivity.
     - intros _. rewrite Kit, Kki, Ht2, Hk2. auto.
-    - exact I. }
+    - exact I.
+    - rewrite Klo'. exact Hlp. }
   pose proof (HLg _ _ _ Hsup Hf Hp _ _ _ _ _ _ _ _ _ _ _ _ _ _ _ _ Eb H4 Hpre3) as P.
-  destruct P as (T & more & klb & HnT & Hg & Hw & Hh & HLb & HUb & HEb & HOb & fs0in & fmin & Hdin & Hfs1 & Hk).
+  destruct P as (T & more & klb & HnT & Hg & Hw & Hh & HLb & HUb & HEb & HOb & Hnlb & fs0in & fmin & Hdin & Hfs1 & Hk).
   specialize (Hh eq_refl).
   destruct (gstep_fields _ _ _ _ _ _ _ _ Hg) as (Hc4 & Hl4 & Hd4 & Hu4 & Hb4 & Hk4 & Ht4 & Htd4 & Hlo4 & Ha4).
   destruct Hg as (Hcode4 & _).
@@ -1014,6 +1043,7 @@ Proof.
   split. { unfold urel in *. congruence. }
   split. { rewrite Ho6. exact HEo. }
   split. { rewrite Ho6. exact HOo. }
+  split. { rewrite <- (F2_length _ _ _ Hnd_e). exact plen. }
   exists (fs0 ++ (fs0in ++ [SC.mkFunc (cb ++ [SC.INil; SC.IReturn]) (length ps) (length Ub)])), (fm ++ [length fs1]).
   split. { replace (k_consts (s_cur st')) with (k_consts e' ++ [KFun f]) by congruence. exact Hnum. }
   split. { rewrite Hfs1, pfs, <- !app_assoc. reflexivity. }
@@ -1098,13 +1128,13 @@ Lemma S_postT_repatch T T' more kl st s s' d pos lc code L' U' E' base pre fs' :
   holes T' = holes T -> wfT pos T' -> filled (lc_exit_of lc) T' = filled (lc_exit_of lc) T ->
   S_postT T' more kl st s' d pos lc code L' U' E' base pre fs'.
 Proof.
-  intros (Hg & Hw & Hh & HL & HU & HE & HO & fs0' & fm' & Hd & Hfs & Hk) Hc Hr Ho Hhol Hw' Hfil.
+  intros (Hg & Hw & Hh & HL & HU & HE & HO & Hnl & fs0' & fm' & Hd & Hfs & Hk) Hc Hr Ho Hhol Hw' Hfil.
   unfold rest in Hr. injection Hr; intros.
   unfold S_postT. rewrite Hhol, Hfil, Ho.
   replace (k_upvalues (s_cur s')) with (k_upvalues (s_cur s)) by congruence.
   replace (k_consts (s_cur s')) with (k_consts (s_cur s)) by congruence.
   split. { destruct Hg as (_ & Hg2). split; [exact Hc|]. unfold rest in *. congruence. }
-  split; [exact Hw'|]. split; [exact Hh|]. split; [exact HL|]. split; [exact HU|]. split; [exact HE|]. split; [exact HO|].
+  split; [exact Hw'|]. split; [exact Hh|]. split; [exact HL|]. split; [exact HU|]. split; [exact HE|]. split; [exact HO|]. split; [exact Hnl|].
   exists fs0', fm'. auto.
 Qed.
 
@@ -1143,7 +1173,7 @@ Proof.
   destruct p_num0 as (fs0 & fm & Hd & Hfs).
   unfold S_postT. cbn [raw holes flat_map app]. rewrite push_holes_nil, Hu, Ho, Hc.
   split; [exact Hg|]. split. { cbn [wfT]. split; [lia|exact I]. }
-  split; [reflexivity|]. split; [exact p_L0|]. split; [exact p_U0|]. split; [exact p_E0|]. split; [apply Oframe_refl|].
+  split; [reflexivity|]. split; [exact p_L0|]. split; [exact p_U0|]. split; [exact p_E0|]. split; [apply Oframe_refl|]. split; [exact p_len0|].
   exists fs0, fm. split; [exact Hd|]. split; [exact Hfs|].
   intros KS FM _ _. cbn [filled flat_map app]. rewrite app_nil_r. apply crel_one. apply HJ.
 Qed.
@@ -1159,7 +1189,7 @@ Proof.
   destruct p_num0 as (fs0 & fm & Hd & Hfs).
   unfold S_postT. rewrite raw_IB, holes_IB, push_holes_nil, Hu, Ho, Hc.
   split; [exact Hg|]. split; [apply wfT_IB|]. split; [reflexivity|]. split; [exact p_L0|]. split; [exact p_U0|].
-  split; [exact p_E0|]. split; [apply Oframe_refl|].
+  split; [exact p_E0|]. split; [apply Oframe_refl|]. split; [exact p_len0|].
   exists fs0, fm. split; [exact Hd|]. split; [exact Hfs|]. intros KS FM _ _. rewrite filled_IB. apply Hk.
 Qed.
 
@@ -1204,6 +1234,7 @@ Proof.
   { eapply upd_step; [exact Hbump|reflexivity|reflexivity]. }
   unfold parse_variable in Hpv. apply bind_inv in Hpv as (u7 & s0 & Hdv & Hpv). destruct u7. bcur Hpv.
   pose proof (p_d _ _ _ _ _ _ _ _ _ _ _ _ Hpre) as Hd.
+  pose proof (declare_variable_len _ _ _ _ _ Hdv) as Hdl. rewrite Hd in Hdl.
   apply declare_variable_e in Hdv as [[Hz ->]|[Hz Hs0]].
   - (* a global *)
     rewrite Hd in Hz. subst d. cbn [Nat.eqb] in Hn.
@@ -1218,7 +1249,7 @@ Proof.
     cbn [SC.code_size] in Hpre1. rewrite Nat.add_0_r in Hpre1.
     rewrite (p_d _ _ _ _ _ _ _ _ _ _ _ _ Hpre1) in Hbs2.
     assert (Qb : S_post s1 s2 0 pos lc [] L U E base pre fs).
-    { eapply S_post_step; [exact Hpre1|exact Hbs2|apply Hpre1|intros; constructor]. }
+    { eapply S_post_step; [exact Hpre1|exact Hbs2|apply Hpre1|apply Hpre1|intros; constructor]. }
     pose proof (S_pre_next _ _ _ _ _ _ _ _ _ _ _ _ _ _ _ _ _ _ _ Hpre1 Qb) as Hpre2.
     cbn [SC.code_size] in Hpre2. rewrite Nat.add_0_r in Hpre2.
     edestruct func_ok as (Q1 & Hnd); [exact HLg|exact Hsup|exact Hf|exact Hpb|exact Ef|exact Hnc|exact Hbs|exact Hcp|exact Hbody|exact Hfin|exact Hclo|exact Hpre2|].
@@ -1245,7 +1276,8 @@ Proof.
     injection Hn; intros; subst code L' U' E' fs'. clear Hn.
     rewrite Hd in Hs0.
     assert (P0 : S_post st s0 d pos lc [] (SC.mkLocal (Some x) None false :: L) U E base pre fs).
-    { eapply S_post_step; [exact Hpre|exact Hs0| |intros; constructor]. constructor; [repeat split|apply Hpre]. }
+    { eapply S_post_step; [exact Hpre|exact Hs0| | |intros; constructor]; [constructor; [repeat split|apply Hpre]|].
+      cbn [length]. pose proof (p_len _ _ _ _ _ _ _ _ _ _ _ _ Hpre). lia. }
     pose proof (S_pre_next _ _ _ _ _ _ _ _ _ _ _ _ _ _ _ _ _ _ _ Hpre P0) as Hpre0.
     cbn [SC.code_size] in Hpre0. rewrite Nat.add_0_r in Hpre0.
     rewrite (p_d _ _ _ _ _ _ _ _ _ _ _ _ Hpre0) in Hpv.
@@ -1253,7 +1285,7 @@ Proof.
     inversion Hpv; subst g s1. clear Hpv.
     rewrite (p_d _ _ _ _ _ _ _ _ _ _ _ _ Hpre0) in Hbs2.
     assert (Qb : S_post s0 s2 d pos lc [] (SC.mkLocal (Some x) None false :: L) U E base pre fs).
-    { eapply S_post_step; [exact Hpre0|exact Hbs2|apply Hpre0|intros; constructor]. }
+    { eapply S_post_step; [exact Hpre0|exact Hbs2|apply Hpre0|apply Hpre0|intros; constructor]. }
     pose proof (S_pre_next _ _ _ _ _ _ _ _ _ _ _ _ _ _ _ _ _ _ _ Hpre0 Qb) as Hpre2.
     cbn [SC.code_size] in Hpre2. rewrite Nat.add_0_r in Hpre2.
     edestruct func_ok as (Q1 & Hnd); [exact HLg|exact Hsup|exact Hf|exact Hpb|exact Ef|exact Hnc|exact Hbs|exact Hcp|exact Hbody|exact Hfin|exact Hclo|exact Hpre2|].
@@ -1274,8 +1306,8 @@ Proof.
     pose proof (mark_initialised_e _ _ _ _ _ _ _ Hdef (eq_sym Eq2) Hz3) as Hs3.
     rewrite (p_d _ _ _ _ _ _ _ _ _ _ _ _ Hpre3) in Hs3.
     assert (Q2 : S_post s9 st' d (pos + SC.code_size [ci]) lc [] (SC.mkLocal (Some x) (Some d) (SC.l_capt l0) :: L1) U1 E1 base pre fs1).
-    { eapply S_post_step; [exact Hpre3|exact Hs3| |intros; constructor].
-      constructor; [|exact HLr]. repeat split; cbn; auto. }
+    { eapply S_post_step; [exact Hpre3|exact Hs3| | |intros; constructor]; [constructor; [|exact HLr]; repeat split; cbn; auto|].
+      pose proof (p_len _ _ _ _ _ _ _ _ _ _ _ _ Hpre3) as X. rewrite <- Eq2 in X. exact X. }
     change [ci] with ([] ++ [] ++ [ci] ++ []).
     eapply S_post_seq; [exact P0|]. cbn [SC.code_size]. rewrite Nat.add_0_r.
     eapply S_post_seq; [exact Qb|]. cbn [SC.code_size]. rewrite Nat.add_0_r.
@@ -1392,17 +1424,17 @@ Qed.
 Hypothesis Hcatch : SC.c_catch_pops cf = false.
 
 Lemma step_piece B code st s1 L L' d d' kl' U E fs pos lc base pre infun inloop :
-  step st s1 B [] kl' d' -> Lrel L' kl' -> (forall KS FM, crel KS FM B code) ->
+  step st s1 B [] kl' d' -> Lrel L' kl' -> length kl' <= 256 -> (forall KS FM, crel KS FM B code) ->
   S_pre st L d U E fs pos lc base pre infun inloop ->
   S_postT (map IB B) [] kl' st s1 d' pos lc code L' U E base pre fs.
 Proof.
-  intros Hs HL Hk Hpre. destruct Hpre.
+  intros Hs HL Hlen Hk Hpre. destruct Hpre.
   destruct (step_gstep _ _ _ _ _ _ Hs) as (Hg & Ho).
   destruct (gstep_fields _ _ _ _ _ _ _ _ Hg) as (Hc & _ & _ & Hu & _). rewrite app_nil_r in Hc.
   destruct p_num0 as (fs0 & fm & Hd & Hfs).
   unfold S_postT. rewrite raw_IB, holes_IB, push_holes_nil, Hu, Ho, Hc.
   split; [exact Hg|]. split; [apply wfT_IB|]. split; [reflexivity|]. split; [exact HL|]. split; [exact p_U0|].
-  split; [exact p_E0|]. split; [apply Oframe_refl|].
+  split; [exact p_E0|]. split; [apply Oframe_refl|]. split; [exact Hlen|].
   exists fs0, fm. split; [exact Hd|]. split; [exact Hfs|]. intros KS FM _ _. rewrite filled_IB. apply Hk.
 Qed.
 
@@ -1435,10 +1467,10 @@ Lemma S_postT_conj T m kl st sa sb sc d pos lc code L' U' E' base pre fs' :
   S_postT T m kl sa sb d pos lc code L' U' E' base pre fs' -> S_postT T m kl st sc d pos lc code L' U' E' base pre fs'.
 Proof.
   intros (A1 & A2 & A3 & A4 & A5 & A6 & A7 & A8 & A9 & A10) (B1 & B2 & B3 & B4 & B5 & B6 & B7 & B8 & B9 & B10) Hit Htd
-         ((Hc & Hr) & Hw & Hh & HL & HU & HE & HO & fs0' & fm' & Hd & Hfs & Hk).
+         ((Hc & Hr) & Hw & Hh & HL & HU & HE & HO & Hnl & fs0' & fm' & Hd & Hfs & Hk).
   unfold S_postT. rewrite B7, B2, B5, <- A10, <- A2.
   split. { split; [congruence|]. unfold rest in *. injection Hr; intros. congruence. }
-  split; [exact Hw|]. split; [exact Hh|]. split; [exact HL|]. split; [exact HU|]. split; [exact HE|]. split; [exact HO|].
+  split; [exact Hw|]. split; [exact Hh|]. split; [exact HL|]. split; [exact HU|]. split; [exact HE|]. split; [exact HO|]. split; [exact Hnl|].
   exists fs0', fm'. auto.
 Qed.
 
@@ -1459,7 +1491,7 @@ Proof.
   destruct p_num0 as (fs0 & fm & Hd & Hfs).
   unfold S_postT. cbn [raw holes flat_map app]. rewrite push_holes_nil, Hu, Ho, Hc.
   split; [exact Hg|]. split. { cbn [wfT]. repeat split; lia. }
-  split; [reflexivity|]. split; [exact p_L0|]. split; [exact p_U0|]. split; [exact p_E0|]. split; [apply Oframe_refl|].
+  split; [reflexivity|]. split; [exact p_L0|]. split; [exact p_U0|]. split; [exact p_E0|]. split; [apply Oframe_refl|]. split; [exact p_len0|].
   exists fs0, fm. split; [exact Hd|]. split; [exact Hfs|].
   intros KS FM _ _. cbn [filled flat_map app]. rewrite app_nil_r. apply crel_one.
   change (opb OpPushExcHandler :: u16le a ++ u16le b) with (opb OpPushExcHandler :: u16le a ++ u16le b). apply one_pushexc.
@@ -1505,8 +1537,8 @@ Proof.
   set (sa := mkS (with_try (s_cur st) true (S (k_try_depth (s_cur st)))) (s_outer st) (s_classes st) (s_line st)) in *.
   assert (Hsim1 : sim_try st sa) by (repeat split).
   assert (Hprea : S_pre sa L d U E fs pos lc base pre false false).
-  { destruct Hpre. constructor; [exact p_L0|exact p_U0|exact p_E0|exact p_d0|exact p_pos0|exact p_num0|exact p_base0|discriminate|].
-    unfold lcrel in *. destruct lc as [l|]; [|exact I]. destruct p_lc0 as (td & rl & b0 & br & H1 & H2 & H3).
+  { destruct Hpre. constructor; [exact p_L0|exact p_U0|exact p_E0|exact p_d0|exact p_pos0|exact p_num0|exact p_base0|discriminate| |exact p_len0].
+    unfold lcrel in *. destruct lc as [l|]; [|exact I]. destruct p_lc0 as (td & rl & b0 & br & H1 & H2 & H3 & H4).
     exists td, rl, b0, br. repeat split; auto. discriminate. }
   apply emit_op_e in Hpe. apply emit_byte_e in Hb1. apply emit_byte_e in Hb2. apply emit_byte_e in Hb3. apply emit_byte_e in Hb4.
   pose proof (emitted_trans _ _ _ _ _ (emitted_trans _ _ _ _ _ (emitted_trans _ _ _ _ _ (emitted_trans _ _ _ _ _ Hpe Hb1) Hb2) Hb3) Hb4) as Hpe5.
@@ -1551,20 +1583,22 @@ Proof.
   destruct (S_postT_len _ _ _ _ _ _ _ _ _ _ _ _ _ _ _ R1) as (_ & Hlen3).
   (* the catch clause: a scope whose first local is the catch variable *)
   apply begin_scope_e in Hbs2. rewrite (p_d _ _ _ _ _ _ _ _ _ _ _ _ Hpre3) in Hbs2.
-  pose proof (step_piece [] [] _ _ _ _ _ _ _ _ _ _ _ _ _ _ _ _ Hbs2 (p_L _ _ _ _ _ _ _ _ _ _ _ _ Hpre3) ltac:(intros; constructor) Hpre3) as Pbs.
+  pose proof (step_piece [] [] _ _ _ _ _ _ _ _ _ _ _ _ _ _ _ _ Hbs2 (p_L _ _ _ _ _ _ _ _ _ _ _ _ Hpre3) (p_len _ _ _ _ _ _ _ _ _ _ _ _ Hpre3) ltac:(intros; constructor) Hpre3) as Pbs.
   pose proof (S_pre_nextT _ _ _ _ _ _ _ _ _ _ _ _ _ _ _ _ _ _ _ _ _ _ Hpre3 Pbs) as Hpd1.
+  assert (Hdl : length (k_locals (s_cur sd1)) < 256).
+  { pose proof (declare_variable_len _ _ _ _ _ Hdv ltac:(rewrite (p_d _ _ _ _ _ _ _ _ _ _ _ _ Hpd1); discriminate)). pose proof (p_len _ _ _ _ _ _ _ _ _ _ _ _ Hpd1). lia. }
   apply declare_variable_e in Hdv as [[Hz _]|[Hz Hs]]; [rewrite (p_d _ _ _ _ _ _ _ _ _ _ _ _ Hpd1) in Hz; discriminate|].
   rewrite (p_d _ _ _ _ _ _ _ _ _ _ _ _ Hpd1) in Hs.
   assert (HLx : Lrel (SC.mkLocal (Some x) None false :: L1) (mkKL (tr_name x) None false :: k_locals (s_cur sd1))).
   { constructor; [repeat split|exact (p_L _ _ _ _ _ _ _ _ _ _ _ _ Hpd1)]. }
-  pose proof (step_piece [] [] _ _ _ _ _ _ _ _ _ _ _ _ _ _ _ _ Hs HLx ltac:(intros; constructor) Hpd1) as Pdv.
+  pose proof (step_piece [] [] _ _ _ _ _ _ _ _ _ _ _ _ _ _ _ _ Hs HLx ltac:(cbn [length]; lia) ltac:(intros; constructor) Hpd1) as Pdv.
   pose proof (S_pre_nextT _ _ _ _ _ _ _ _ _ _ _ _ _ _ _ _ _ _ _ _ _ _ Hpd1 Pdv) as Hpd2.
   destruct (step_fields _ _ _ _ _ _ Hs) as (_ & Hlx & _).
   assert (Hz2 : k_scope (s_cur sd2) <> 0) by (rewrite (p_d _ _ _ _ _ _ _ _ _ _ _ _ Hpd2); discriminate).
   pose proof (mark_initialised_e _ _ _ _ _ _ _ Hmi Hlx Hz2) as Hs3. rewrite (p_d _ _ _ _ _ _ _ _ _ _ _ _ Hpd2) in Hs3.
   assert (HLx2 : Lrel (SC.mkLocal (Some x) (Some (S d)) false :: L1) (mkKL (tr_name x) (Some (S d)) false :: k_locals (s_cur sd1))).
   { constructor; [repeat split|exact (p_L _ _ _ _ _ _ _ _ _ _ _ _ Hpd1)]. }
-  pose proof (step_piece [] [] _ _ _ _ _ _ _ _ _ _ _ _ _ _ _ _ Hs3 HLx2 ltac:(intros; constructor) Hpd2) as Pmi.
+  pose proof (step_piece [] [] _ _ _ _ _ _ _ _ _ _ _ _ _ _ _ _ Hs3 HLx2 ltac:(cbn [length]; lia) ltac:(intros; constructor) Hpd2) as Pmi.
   pose proof (S_pre_nextT _ _ _ _ _ _ _ _ _ _ _ _ _ _ _ _ _ _ _ _ _ _ Hpd2 Pmi) as Hpd3.
   match type of Hpd3 with S_pre _ _ _ _ _ _ ?q _ _ _ _ _ =>
     replace q with (pos + 5 + SC.code_size cb + 4) in Hpd3 by possolve end.
@@ -1576,7 +1610,7 @@ Proof.
   destruct (scope_end_agree [] [] d _ _ HL4) as (_ & Hlen).
   assert (HL5 : Lrel (skipn (length ops) L2) (skipn (length (scope_end_ops d (k_locals (s_cur sd4)))) (k_locals (s_cur sd4)))).
   { unfold ops. rewrite <- Hlen. now apply Lrel_skipn. }
-  pose proof (step_piece _ ops _ _ _ _ _ _ _ _ _ _ _ _ _ _ _ _ Hs5 HL5 ltac:(intros KS FM; now apply scope_end_agree) Hpd4) as Pes.
+  pose proof (step_piece _ ops _ _ _ _ _ _ _ _ _ _ _ _ _ _ _ _ Hs5 HL5 ltac:(rewrite skipn_length; pose proof (p_len _ _ _ _ _ _ _ _ _ _ _ _ Hpd4); lia) ltac:(intros KS FM; now apply scope_end_agree) Hpd4) as Pes.
   pose proof (S_postT_seq' _ _ _ _ _ _ _ _ _ _ _ _ _ _ _ _ _ _ _ _ _ _ _ _ _ _ R1 Pbs ltac:(possolve)) as Q3.
   pose proof (S_postT_seq' _ _ _ _ _ _ _ _ _ _ _ _ _ _ _ _ _ _ _ _ _ _ _ _ _ _ Q3 Pdv ltac:(possolve)) as Q4.
   pose proof (S_postT_seq' _ _ _ _ _ _ _ _ _ _ _ _ _ _ _ _ _ _ _ _ _ _ _ _ _ _ Q4 Pmi ltac:(possolve)) as Q5.
@@ -1606,6 +1640,435 @@ Proof.
     repeat (first [assumption | apply Forall_app; split | apply Forall_cons; [exact I|] | apply Forall_nil | apply noIJ_IB]).
 Qed.
 
+(* ---- loops: for / break / continue ---- *)
+
+Lemma emit_scope_end_false_e d l s u s' : emit_scope_end false d l s = COk (u, s') ->
+  emitted s s' (map opb (scope_end_ops d (k_locals (s_cur s)))).
+Proof.
+  unfold emit_scope_end. intros H. bcur H. apply bind_inv in H as (u0 & s1 & H1 & H). destruct u0.
+  unfold cret in H. inversion H; subst. eapply emit_ops_e; eassumption.
+Qed.
+
+Lemma emit_loop_e ls l s u s' : emit_loop ls l s = COk (u, s') ->
+  emitted s s' (opb OpLoop :: u16le (length (k_code (s_cur s)) + 1 - ls + 2)).
+Proof.
+  unfold emit_loop. intros H. apply bind_inv in H as (u0 & s1 & H1 & H). destruct u0.
+  apply bind_inv in H as (n & s2 & H2 & H). unfold code_len in H2. inversion H2; subst n s2. clear H2.
+  destruct (N.ltb JUMP_SIZE_MAX (N.of_nat (length (k_code (s_cur s1)) - ls + 2))); [discriminate|].
+  apply emit_op_e in H1. apply emit_u16_e in H.
+  assert (Hl : length (k_code (s_cur s1)) = length (k_code (s_cur s)) + 1).
+  { destruct H1 as (Hc & _). rewrite Hc, app_length. reflexivity. }
+  rewrite Hl in H. exact (emitted_trans _ _ _ _ _ H1 H).
+Qed.
+
+Lemma exc_pops_none td l s u s' : emit_exc_handler_pops td l s = COk (u, s') -> td = k_try_depth (s_cur s) -> s' = s.
+Proof.
+  unfold emit_exc_handler_pops. intros H ->. bcur H. rewrite Nat.sub_diag in H. cbn in H. unfold cret in H. now inversion H.
+Qed.
+
+(* the ops of a break / continue: the locals deeper than the loop *)
+Lemma cut_ops_piece dl st s1 L d U E fs pos lc base pre infun inloop :
+  emitted st s1 (map opb (scope_end_ops dl (k_locals (s_cur st)))) ->
+  S_pre st L d U E fs pos lc base pre infun inloop ->
+  S_postT (map IB (map opb (scope_end_ops dl (k_locals (s_cur st))))) [] (k_locals (s_cur st)) st s1 d pos lc
+          (SC.scope_end_ops L dl) L U E base pre fs.
+Proof.
+  intros He Hpre. eapply bytes_piece; [exact He| |exact Hpre].
+  intros KS FM. apply scope_end_agree. apply Hpre.
+Qed.
+
+Lemma continue_ok : S_goal SL.SContinue.
+Proof.
+  unfold S_goal. intros infun top inloop Hsup Hf Hp L d U E fs pos lc code L' U' E' fs' st st' base pre Hn Hc Hpre.
+  cbn [ScopeDefs5.stmt7] in Hf. cbn [andb] in Hf. subst inloop.
+  cbn [ScopeDefs5.nstmt] in Hn. destruct lc as [l|]; [|discriminate]. injection Hn; intros; subst code L' U' E' fs'. clear Hn.
+  pose proof (p_lc _ _ _ _ _ _ _ _ _ _ _ _ Hpre) as (td & rl & b0 & br & Hlo & Hbr & Htd & Hge). specialize (Htd eq_refl).
+  rewrite <- (p_pos _ _ _ _ _ _ _ _ _ _ _ _ Hpre) in Hge.
+  cbn [tr_stmt cstmt] in Hc. bcur Hc. rewrite Hlo in Hc.
+  apply bind_inv in Hc as (u0 & s1 & Hx & Hc). destruct u0. apply (exc_pops_none _ _ _ _ _) in Hx; [|exact Htd]. subst s1.
+  apply bind_inv in Hc as (u0 & s1 & Hse & Hc). destruct u0.
+  apply emit_scope_end_false_e in Hse. apply emit_loop_e in Hc.
+  pose proof (cut_ops_piece _ _ _ _ _ _ _ _ _ _ _ _ _ _ Hse Hpre) as P1.
+  pose proof (S_pre_nextT _ _ _ _ _ _ _ _ _ _ _ _ _ _ _ _ _ _ _ _ _ _ Hpre P1) as Hpre1.
+  rewrite <- (p_pos _ _ _ _ _ _ _ _ _ _ _ _ Hpre1) in Hc.
+  set (ops := SC.scope_end_ops L (SN.lc_depth l)) in *.
+  assert (P2 : S_postT (map IB (opb OpLoop :: u16le (pos + SC.code_size ops + 1 - SN.lc_start l + 2))) [] (k_locals (s_cur s1)) s1 st' d
+                       (pos + SC.code_size ops) (Some l) [SC.ILoop (pos + SC.code_size ops + 3 - SN.lc_start l)] L U E base pre fs).
+  { eapply bytes_piece; [exact Hc| |exact Hpre1]. intros KS FM. apply crel_one.
+    replace (pos + SC.code_size ops + 3 - SN.lc_start l) with (pos + SC.code_size ops + 1 - SN.lc_start l + 2).
+    - apply one_jumps.
+    - lia. }
+  eexists _, _, _. split; [|exact (S_postT_seq _ _ _ _ _ _ _ _ _ _ _ _ _ _ _ _ _ _ _ _ _ _ _ _ _ P1 P2)].
+  apply noIJ_app; apply noIJ_IB.
+Qed.
+
+Lemma hole_piece l0 st p s1 st' L d U E fs pos l base pre infun inloop :
+  emit_jump OpJump l0 st = COk (p, s1) -> push_break p s1 = COk (tt, st') ->
+  S_pre st L d U E fs pos (Some l) base pre infun inloop ->
+  S_postT [IB (opb OpJump); IHole p] [] (k_locals (s_cur st)) st st' d pos (Some l)
+          [SC.IJump (SN.lc_exit l - (pos + 3))] L U E base pre fs.
+Proof.
+  intros He Hpb Hpre. apply emit_jump_e in He as (He & Hp). destruct Hpre.
+  assert (Hp' : p = pos + 1) by (rewrite p_pos0; exact Hp).
+  destruct p_lc0 as (td & rl & b0 & br & Hlo & Hbr & _ & _).
+  destruct He as (Hc1 & Hr1 & Ho1). unfold rest in Hr1. injection Hr1; intros.
+  unfold push_break, upd in Hpb. inversion Hpb; subst st'. clear Hpb.
+  replace (k_breaks (s_cur s1)) with (b0 :: br) by congruence.
+  destruct p_num0 as (fs0 & fm & Hd & Hfs).
+  unfold S_postT. cbn [raw holes flat_map app s_cur s_outer k_upvalues k_consts with_loops]. rewrite Hbr. cbn [push_holes rev app].
+  split. { split; [cbn [k_code with_loops]; exact Hc1|]. unfold rest. cbn. rewrite app_nil_r, <- p_d0. congruence. }
+  split. { cbn [wfT]. split; [lia|exact I]. }
+  split; [discriminate|]. split; [exact p_L0|]. split; [unfold urel in *; congruence|]. split; [rewrite Ho1; exact p_E0|].
+  split; [rewrite Ho1; apply Oframe_refl|]. split; [exact p_len0|].
+  exists fs0, fm. split; [congruence|]. split; [exact Hfs|].
+  intros KS FM _ _. cbn [filled flat_map app lc_exit_of]. rewrite app_nil_r. apply crel_one.
+  replace (SN.lc_exit l - (pos + 3)) with (SN.lc_exit l - p - 2) by lia. apply one_jumps.
+Qed.
+
+Lemma break_ok : S_goal SL.SBreak.
+Proof.
+  unfold S_goal. intros infun top inloop Hsup Hf Hp L d U E fs pos lc code L' U' E' fs' st st' base pre Hn Hc Hpre.
+  cbn [ScopeDefs5.stmt7] in Hf. cbn [andb] in Hf. subst inloop.
+  cbn [ScopeDefs5.nstmt] in Hn. destruct lc as [l|]; [|discriminate]. injection Hn; intros; subst code L' U' E' fs'. clear Hn.
+  pose proof (p_lc _ _ _ _ _ _ _ _ _ _ _ _ Hpre) as (td & rl & b0 & br & Hlo & Hbr & Htd & Hge). specialize (Htd eq_refl).
+  cbn [tr_stmt cstmt] in Hc. bcur Hc. rewrite Hlo in Hc.
+  apply bind_inv in Hc as (u0 & s1 & Hx & Hc). destruct u0. apply (exc_pops_none _ _ _ _ _) in Hx; [|exact Htd]. subst s1.
+  apply bind_inv in Hc as (u0 & s1 & Hse & Hc). destruct u0. apply bind_inv in Hc as (bp & s2 & Hj & Hpb).
+  apply emit_scope_end_false_e in Hse.
+  pose proof (cut_ops_piece _ _ _ _ _ _ _ _ _ _ _ _ _ _ Hse Hpre) as P1.
+  pose proof (S_pre_nextT _ _ _ _ _ _ _ _ _ _ _ _ _ _ _ _ _ _ _ _ _ _ Hpre P1) as Hpre1.
+  pose proof (hole_piece _ _ _ _ _ _ _ _ _ _ _ _ _ _ _ _ Hj Hpb Hpre1) as P2.
+  eexists _, _, _. split; cycle 1.
+  - eapply S_postT_eq; [reflexivity| |exact (S_postT_seq _ _ _ _ _ _ _ _ _ _ _ _ _ _ _ _ _ _ _ _ _ _ _ _ _ P1 P2)].
+    first [reflexivity | repeat f_equal; lia].
+  - apply noIJ_app; [apply noIJ_IB|repeat constructor].
+Qed.
+
+(* ---- for i in 0..n { b } ---- *)
+
+Lemma add_local_e nm s ok s' : add_local nm s = COk (ok, s') ->
+  (ok = true /\ length (k_locals (s_cur s)) <> 256 /\
+   step s s' [] [] (mkKL nm None false :: k_locals (s_cur s)) (k_scope (s_cur s))) \/ ok = false.
+Proof.
+  unfold add_local. intros H. bcur H.
+  destruct (Nat.eqb_spec (length (k_locals (s_cur s))) LOCALS_MAX) as [He|Hne].
+  - unfold cret in H. inversion H; subst. now right.
+  - apply bind_inv in H as (u0 & s1 & Hu & H). unfold cret in H. inversion H; subst ok s'. left.
+    split; [reflexivity|]. split; [exact Hne|]. eapply upd_step; [exact Hu|reflexivity|reflexivity].
+Qed.
+
+Lemma mark_slot_head slot s u s' nm dp cp r : mark_initialised_slot slot s = COk (u, s') ->
+  k_locals (s_cur s) = mkKL nm dp cp :: r -> slot = length r ->
+  step s s' [] [] (mkKL nm (Some (k_scope (s_cur s))) cp :: r) (k_scope (s_cur s)).
+Proof.
+  unfold mark_initialised_slot. intros H Hl Hs. eapply upd_step; [exact H| |]; cbv beta; rewrite Hl; cbn [length];
+    replace (S (length r) - 1 - slot) with 0 by lia; reflexivity.
+Qed.
+
+Lemma szb_eq b j i t lp L d U E fs pos l1 l2 c1 La Ua Ea fa c2 Lb Ub Eb fb :
+  forallb (ScopeDefs5.stmt7 j i t lp) b = true -> SN.lc_depth l1 = SN.lc_depth l2 ->
+  ScopeDefs5.nblk cf b d L U E fs pos (Some l1) = Some (c1, La, Ua, Ea, fa) ->
+  ScopeDefs5.nblk cf b d L U E fs pos (Some l2) = Some (c2, Lb, Ub, Eb, fb) ->
+  SC.code_size c1 = SC.code_size c2.
+Proof.
+  intros Hf Hd H1 H2.
+  assert (Hu : forallb ScopeFacts5.stmt7u b = true) by (eapply ScopeFacts5.forallb_stmt7_stmt7u; exact Hf).
+  assert (HF : Forall (ScopeFacts5.nstmt_szP cf) b).
+  { apply Forall_forall. intros x Hx. apply ScopeFacts5.nstmt_lc_sz. rewrite forallb_forall in Hu. now apply Hu. }
+  pose proof (ScopeFacts5.nblk_sz_aux cf b (ScopeFacts5.nlist_sz_aux cf b HF) L d U E fs pos l1 l2 Hd) as Hs.
+  rewrite H1, H2 in Hs. cbn in Hs. now destruct Hs.
+Qed.
+
+(* pop_loop on the raw code: every pending break jump of T gets the distance to the current end of the code *)
+Lemma patch_holes_raw : forall T c0 s s', noIJ T -> wfT (length c0) T ->
+  patch_jumps (holes T) s = COk (tt, s') -> k_code (s_cur s) = c0 ++ raw T ->
+  k_code (s_cur s') = c0 ++ filled (length (k_code (s_cur s))) T /\ rest (s_cur s') = rest (s_cur s) /\ s_outer s' = s_outer s.
+Proof.
+  induction T as [|[b|p|p v] r IH]; intros c0 s s' Hn Hw Hp Hc.
+  - cbn in Hp. unfold cret in Hp. inversion Hp; subst. cbn in Hc |- *. auto.
+  - inversion Hn; subst. cbn [wfT] in Hw. cbn [holes flat_map app] in Hp.
+    change (raw (IB b :: r)) with ([b] ++ raw r) in Hc. rewrite app_assoc in Hc.
+    destruct (IH (c0 ++ [b]) s s' H2 ltac:(rewrite app_length; cbn; replace (length c0 + 1) with (S (length c0)) by lia; exact Hw) Hp Hc)
+      as (K1 & K2 & K3).
+    split; [|auto]. rewrite K1, <- app_assoc. reflexivity.
+  - inversion Hn; subst. cbn [wfT] in Hw. destruct Hw as (Hpp & Hw). cbn [holes flat_map app patch_jumps] in Hp.
+    apply bind_inv in Hp as (u0 & s1 & Hpj & Hp). destruct u0.
+    change (raw (IHole p :: r)) with (255%N :: 255%N :: raw r) in Hc.
+    destruct (patch_jump_raw _ _ _ _ _ _ _ _ Hpj Hc (eq_sym Hpp)) as (Hc1 & Hr1 & Ho1).
+    assert (Hlen1 : length (k_code (s_cur s1)) = length (k_code (s_cur s))).
+    { rewrite Hc1, Hc, !app_length. reflexivity. }
+    change (c0 ++ N.modulo (N.of_nat (length (raw r))) 256 :: N.div (N.of_nat (length (raw r))) 256 :: raw r)
+      with (c0 ++ [N.modulo (N.of_nat (length (raw r))) 256; N.div (N.of_nat (length (raw r))) 256] ++ raw r) in Hc1.
+    rewrite app_assoc in Hc1.
+    destruct (IH (c0 ++ [N.modulo (N.of_nat (length (raw r))) 256; N.div (N.of_nat (length (raw r))) 256]) s1 s' H2
+                ltac:(rewrite app_length; cbn [length]; exact Hw) Hp Hc1) as (K1 & K2 & K3).
+    split; [|split; congruence].
+    rewrite K1, Hlen1, <- app_assoc. f_equal. cbn [filled flat_map app]. unfold u16le.
+    replace (length (k_code (s_cur s)) - p - 2) with (length (raw r)) by (rewrite Hc, app_length; cbn; lia). reflexivity.
+  - inversion Hn; subst. contradiction.
+Qed.
+
+(* two states that differ only in loop_stack / break_stack *)
+Definition sim_loop (s0 sp : cstate) : Prop :=
+  k_code (s_cur sp) = k_code (s_cur s0) /\ s_outer sp = s_outer s0 /\
+  k_kind (s_cur sp) = k_kind (s_cur s0) /\ k_arity (s_cur sp) = k_arity (s_cur s0) /\ k_consts (s_cur sp) = k_consts (s_cur s0) /\
+  k_locals (s_cur sp) = k_locals (s_cur s0) /\ k_upvalues (s_cur sp) = k_upvalues (s_cur s0) /\ k_scope (s_cur sp) = k_scope (s_cur s0) /\
+  k_in_try (s_cur sp) = k_in_try (s_cur s0) /\ k_try_depth (s_cur sp) = k_try_depth (s_cur s0).
+
+Lemma pop_loop_ok T m kl s0 sp sq sr d pos l' lc0 code L' U' E' base pre fs' x :
+  S_postT T m kl sp sq d pos (Some l') code L' U' E' base pre fs' -> noIJ T -> pos = length (k_code (s_cur sp)) ->
+  sim_loop s0 sp -> k_loops (s_cur sp) = x :: k_loops (s_cur s0) -> k_breaks (s_cur sp) = [] :: k_breaks (s_cur s0) ->
+  pop_loop sq = COk (tt, sr) -> SN.lc_exit l' = length (k_code (s_cur sq)) ->
+  S_postT (map IB (filled (SN.lc_exit l') T)) m kl s0 sr d pos lc0 code L' U' E' base pre fs'.
+Proof.
+  intros (Hg & Hw & Hh & HL & HU & HE & HO & Hnl & fs0' & fm' & Hd & Hfs & Hk) HnT Hpos
+         (A1 & A2 & A3 & A4 & A5 & A6 & A7 & A8 & A9 & A10) Hlo Hbr Hpl Hex.
+  destruct (gstep_fields _ _ _ _ _ _ _ _ Hg) as (Hc & Hl & Hsc & Hup & Hb & Hkind & Hit & Htd & Hloops & Har).
+  destruct Hg as (Hcode & _).
+  unfold pop_loop in Hpl. bcur Hpl. rewrite Hb, Hbr in Hpl. cbn [push_holes] in Hpl. rewrite app_nil_r, rev_involutive in Hpl.
+  apply bind_inv in Hpl as (u0 & sq' & Hu & Hpl). destruct u0. unfold upd in Hu. inversion Hu; subst sq'. clear Hu.
+  destruct (patch_holes_raw T (k_code (s_cur sp)) _ sr HnT ltac:(rewrite <- Hpos; exact Hw) Hpl Hcode) as (K1 & K2 & K3).
+  cbn [s_cur s_outer k_code with_loops] in K1, K3. rewrite <- Hex in K1.
+  unfold rest in K2. cbn in K2. injection K2; intros.
+  unfold S_postT. rewrite raw_IB, holes_IB, push_holes_nil, filled_IB.
+  replace (k_upvalues (s_cur sr)) with (k_upvalues (s_cur sq)) by congruence.
+  replace (k_consts (s_cur sr)) with (k_consts (s_cur sq)) by congruence.
+  rewrite K3, <- A2.
+  split. { split; [congruence|]. unfold rest. rewrite Hloops, Hlo, Hb, Hbr in *. cbn [push_holes tl] in *. congruence. }
+  split; [apply wfT_IB|]. split; [reflexivity|]. split; [exact HL|]. split; [exact HU|]. split; [exact HE|]. split; [exact HO|].
+  split; [exact Hnl|]. exists fs0', fm'. split; [exact Hd|]. split; [exact Hfs|]. exact Hk.
+Qed.
+
+Lemma iter_ok l st s1 gi s2 s3 st' U E :
+  set_line l st = COk (tt, s1) -> identifier_constant n_iter s1 = COk (gi, s2) ->
+  emit_op16 OpInvoke gi l s2 = COk (tt, s3) -> emit_byte 0%N l s3 = COk (tt, st') ->
+  urel U (k_upvalues (s_cur st)) -> Erel E (s_outer st) ->
+  E_post st st' [SC.IInvoke SC.MIter 0] U E.
+Proof.
+  intros H1 H2 H3 H4 HU HE. apply set_line_e in H1. unfold identifier_constant in H2.
+  apply make_constant_e in H2 as (more & Hg & Hm & d & Hd & Hc). apply emit_op16_e in H3. apply emit_byte_e in H4.
+  pose proof (emitted_trans _ _ _ _ _ H3 H4) as H34.
+  assert (Hs : step0 st st' (([] ++ []) ++ [opb OpInvoke; N.modulo gi 256; N.div gi 256; 0]%N) (([] ++ more) ++ [])).
+  { eapply step0_trans; [eapply step0_trans; [apply emitted_step; eassumption|apply grow_step; eassumption]|apply emitted_step; exact H34]. }
+  apply (E_post_of_step0 _ _ _ _ _ _ _ Hs); auto.
+  - rewrite app_nil_r. cbn [app]. destruct Hm as [->| ->]; repeat constructor.
+  - intros KS FM He. cbn [app]. apply crel_one. rewrite (emitted_consts _ _ _ H34) in He.
+    pose proof (ext_nth _ _ _ _ He (const_str_nth _ _ _ _ Hd Hc)) as Hn.
+    split; [reflexivity|]. intros r. cbn [app]. unfold dec1, opb. cbn [N_of_opcode opcode_of_N].
+    rewrite u16_split. unfold kstr. rewrite Hn. reflexivity.
+Qed.
+
+Lemma loop_ok i n b : L_goal b -> S_goal (SL.SLoop i n b).
+Proof.
+  intros HLb. unfold S_goal.
+  intros infun top inloop Hsup Hf Hp L d U E fs pos lc code L' U' E' fs' st st' base pre Hn Hc Hpre.
+  cbn [sup] in Hsup. cbn [ScopeDefs5.stmt7] in Hf. cbn [stmt_repr_ok] in Hp.
+  apply andb_prop in Hp as [Hp Hpb0]. apply andb_prop in Hp as [Hp Hpn]. apply andb_prop in Hp as [_ Hp0].
+  rewrite ScopeFacts5.nstmt_loop in Hn.
+  destruct (SC.dup_in_scope L i (S d)); [discriminate|].
+  destruct (Nat.eqb (length L) (SC.c_locals_max cf)); [discriminate|].
+  destruct (Nat.eqb (S (length L)) (SC.c_locals_max cf)); [discriminate|].
+  cbv zeta in Hn.
+  set (lv := length L) in *.
+  set (Lh := SC.mkLocal None (Some (S d)) false :: SC.mkLocal (Some i) (Some (S d)) false :: L) in *.
+  set (start := pos + SC.code_size (SN.loop_pre n)) in *.
+  set (posb := start + SC.code_size (SN.loop_head lv 0)) in *.
+  destruct (ScopeDefs5.nblk cf b (S d) Lh U E fs posb (Some (SN.mkLctx start (S d) 0))) as [[[[[c0 La] Ua] Ea] fa]|] eqn:Eb0; [|discriminate].
+  set (szb := SC.code_size c0) in *.
+  set (lc' := SN.mkLctx start (S d) (posb + szb + 3 + 1)) in *.
+  destruct (ScopeDefs5.nblk cf b (S d) Lh U E fs posb (Some lc')) as [[[[[cblock L1] U1] E1] fs1]|] eqn:Eb; [|discriminate].
+  injection Hn; intros; subst code L' U' E' fs'. clear Hn.
+  assert (Hszb : szb = SC.code_size cblock)
+    by exact (szb_eq b _ _ _ _ Lh (S d) U E fs posb (SN.mkLctx start (S d) 0) lc' c0 La Ua Ea fa cblock L1 U1 E1 fs1 Hf eq_refl Eb0 Eb).
+  set (ops := SC.scope_end_ops L1 d) in *.
+  cbn [tr_stmt cstmt] in Hc. rewrite tr_list_eq in Hc.
+  apply bind_inv in Hc as (u0 & s1 & Hbs & Hc). destruct u0.
+  apply bind_inv in Hc as (u0 & s2 & Hdv & Hc). destruct u0.
+  bcur Hc.
+  apply bind_inv in Hc as (u0 & s3 & Hnil & Hc). destruct u0.
+  apply bind_inv in Hc as (u0 & s6 & Hit & Hc). destruct u0.
+  apply bind_inv in Hc as (u0 & s7 & Hms & Hc). destruct u0.
+  apply bind_inv in Hc as (ok & s8 & Hal & Hc).
+  apply bind_inv in Hc as (u0 & s8' & Hok & Hc). destruct u0.
+  apply bind_inv in Hc as (u0 & s8a & Hsl & Hc). destruct u0.
+  apply bind_inv in Hc as (gi & s8b & Hic & Hc).
+  apply bind_inv in Hc as (u0 & s8c & Hinv & Hc). destruct u0.
+  apply bind_inv in Hc as (u0 & s9 & Hb0 & Hc). destruct u0.
+  apply bind_inv in Hc as (u0 & s10 & Hmi & Hc). destruct u0.
+  apply bind_inv in Hc as (u0 & sp & Hpush & Hc). destruct u0.
+  apply bind_inv in Hc as (ls & sp' & Hls & Hc). unfold code_len in Hls. inversion Hls; subst ls sp'. clear Hls.
+  apply bind_inv in Hc as (u0 & sa & Hin & Hc). destruct u0.
+  apply bind_inv in Hc as (u0 & sb & Hsl2 & Hc). destruct u0.
+  apply bind_inv in Hc as (pj & sc & Hj & Hc).
+  apply bind_inv in Hc as (u0 & sd & Hpop1 & Hc). destruct u0.
+  apply bind_inv in Hc as (u0 & se1 & Hbs2 & Hc). destruct u0.
+  apply bind_inv in Hc as (u0 & se2 & Hbb & Hc). destruct u0.
+  apply bind_inv in Hc as (u0 & se & Hes1 & Hc). destruct u0.
+  apply bind_inv in Hc as (u0 & sf & Hel & Hc). destruct u0.
+  apply bind_inv in Hc as (u0 & sg & Hpj & Hc). destruct u0.
+  apply bind_inv in Hc as (u0 & sq & Hpop2 & Hc). destruct u0.
+  apply bind_inv in Hc as (u0 & sr & Hpl & Hes2). destruct u0.
+  (* 1. begin_scope *)
+  apply begin_scope_e in Hbs. rewrite (p_d _ _ _ _ _ _ _ _ _ _ _ _ Hpre) in Hbs.
+  pose proof (step_piece [] [] _ _ _ _ _ _ _ _ _ _ _ _ _ _ _ _ Hbs (p_L _ _ _ _ _ _ _ _ _ _ _ _ Hpre) (p_len _ _ _ _ _ _ _ _ _ _ _ _ Hpre) ltac:(intros; constructor) Hpre) as P1.
+  pose proof (S_pre_nextT _ _ _ _ _ _ _ _ _ _ _ _ _ _ _ _ _ _ _ _ _ _ Hpre P1) as Hp1.
+  (* 2. the loop variable, declared but not yet initialised *)
+  assert (Hdl : length (k_locals (s_cur s1)) < 256).
+  { pose proof (declare_variable_len _ _ _ _ _ Hdv ltac:(rewrite (p_d _ _ _ _ _ _ _ _ _ _ _ _ Hp1); discriminate)). pose proof (p_len _ _ _ _ _ _ _ _ _ _ _ _ Hp1). lia. }
+  apply declare_variable_e in Hdv as [[Hz _]|[Hz Hs2]]; [rewrite (p_d _ _ _ _ _ _ _ _ _ _ _ _ Hp1) in Hz; discriminate|].
+  rewrite (p_d _ _ _ _ _ _ _ _ _ _ _ _ Hp1) in Hs2.
+  assert (HLi : Lrel (SC.mkLocal (Some i) None false :: L) (mkKL (tr_name i) None false :: k_locals (s_cur s1))).
+  { constructor; [repeat split|exact (p_L _ _ _ _ _ _ _ _ _ _ _ _ Hp1)]. }
+  pose proof (step_piece [] [] _ _ _ _ _ _ _ _ _ _ _ _ _ _ _ _ Hs2 HLi ltac:(cbn [length]; lia) ltac:(intros; constructor) Hp1) as P2.
+  pose proof (S_pre_nextT _ _ _ _ _ _ _ _ _ _ _ _ _ _ _ _ _ _ _ _ _ _ Hp1 P2) as Hp2.
+  destruct (step_fields _ _ _ _ _ _ Hs2) as (_ & Hl2 & _).
+  assert (Hlen1 : length (k_locals (s_cur s1)) = lv) by (unfold lv; symmetry; exact (F2_length _ _ _ (p_L _ _ _ _ _ _ _ _ _ _ _ _ Hp1))).
+  assert (Hlv : length (k_locals (s_cur s2)) - 1 = lv) by (rewrite Hl2; cbn [length]; lia).
+  rewrite Hlv in Hms, Hsl2.
+  (* 3. Nil *)
+  apply emit_op_e in Hnil.
+  pose proof (bytes_piece [opb OpNil] [SC.INil] _ _ _ _ _ _ _ _ _ _ _ _ _ Hnil ltac:(intros; apply crel_one; one_simple) Hp2) as P3.
+  pose proof (S_pre_nextT _ _ _ _ _ _ _ _ _ _ _ _ _ _ _ _ _ _ _ _ _ _ Hp2 P3) as Hp3.
+  (* 4. the range 0..n *)
+  change (cexpr (LRange (LNum 0 (tr_num 0)) (LNum 0 (tr_num (N.of_nat n))) 0))
+    with (cexpr (tr_expr (SL.ELit 0));;; cexpr (tr_expr (SL.ELit (N.of_nat n)));;; emit_op OpBuildRange 0%N) in Hit.
+  apply bind_inv in Hit as (u0 & s4 & Hr0 & Hit). destruct u0. apply bind_inv in Hit as (u0 & s5 & Hrn & Hbr). destruct u0.
+  pose proof (E_allg (SL.ELit 0) eq_refl Hp0 _ U E _ _ _ _ _ eq_refl Hr0 (p_L _ _ _ _ _ _ _ _ _ _ _ _ Hp3) (p_U _ _ _ _ _ _ _ _ _ _ _ _ Hp3) (p_E _ _ _ _ _ _ _ _ _ _ _ _ Hp3)) as PA.
+  destruct (E_post_rel _ _ _ _ _ PA) as (HUa & HEa).
+  pose proof (p_L _ _ _ _ _ _ _ _ _ _ _ _ Hp3) as HL3. rewrite <- (E_post_locals _ _ _ _ _ PA) in HL3.
+  pose proof (E_allg (SL.ELit (N.of_nat n)) eq_refl Hpn _ U E _ _ _ _ _ eq_refl Hrn HL3 HUa HEa) as PB.
+  destruct (E_post_rel _ _ _ _ _ PB) as (HUb & HEb). apply emit_op_e in Hbr.
+  assert (PC : E_post s5 s6 [SC.IBuildRange] U E).
+  { apply (E_post_emit _ _ _ _ _ _ Hbr); auto. intros; apply crel_one; one_simple. }
+  pose proof (E_post_seq _ _ _ _ _ _ _ _ _ PA (E_post_seq _ _ _ _ _ _ _ _ _ PB PC)) as PR.
+  pose proof (S_post_E _ _ _ _ _ _ _ _ _ _ _ _ _ _ _ _ Hp3 PR) as P4. destruct P4 as (T4 & m4 & kl4 & N4 & P4).
+  pose proof (S_pre_nextT _ _ _ _ _ _ _ _ _ _ _ _ _ _ _ _ _ _ _ _ _ _ Hp3 P4) as Hp6.
+  (* 5. the loop variable becomes initialised *)
+  assert (Hl6 : k_locals (s_cur s6) = mkKL (tr_name i) None false :: k_locals (s_cur s1)).
+  { rewrite (E_post_locals _ _ _ _ _ PR). destruct Hnil as (_ & Hr & _). unfold rest in Hr. injection Hr; intros. congruence. }
+  pose proof (mark_slot_head _ _ _ _ _ _ _ _ Hms Hl6 (eq_sym Hlen1)) as Hs7. rewrite (p_d _ _ _ _ _ _ _ _ _ _ _ _ Hp6) in Hs7.
+  assert (HLi2 : Lrel (SC.mkLocal (Some i) (Some (S d)) false :: L) (mkKL (tr_name i) (Some (S d)) false :: k_locals (s_cur s1))).
+  { constructor; [repeat split|exact (p_L _ _ _ _ _ _ _ _ _ _ _ _ Hp1)]. }
+  pose proof (step_piece [] [] _ _ _ _ _ _ _ _ _ _ _ _ _ _ _ _ Hs7 HLi2 ltac:(cbn [length]; lia) ltac:(intros; constructor) Hp6) as P5.
+  pose proof (S_pre_nextT _ _ _ _ _ _ _ _ _ _ _ _ _ _ _ _ _ _ _ _ _ _ Hp6 P5) as Hp7.
+  (* 6. the hidden iterator local *)
+  apply add_local_e in Hal as [(Hok1 & Hne & Hs8)|Hok1]; subst ok; [|cbn in Hok; discriminate].
+  cbn in Hok. unfold cret in Hok. inversion Hok; subst s8'. clear Hok.
+  destruct (step_fields _ _ _ _ _ _ Hs7) as (_ & Hl7 & _). rewrite Hl7, (p_d _ _ _ _ _ _ _ _ _ _ _ _ Hp7) in Hs8. rewrite Hl7 in Hne. cbn [length] in Hne.
+  set (hid := bs "... temp-iter-var ...") in *.
+  assert (HLh0 : Lrel (SC.mkLocal None None false :: SC.mkLocal (Some i) (Some (S d)) false :: L)
+                      (mkKL hid None false :: mkKL (tr_name i) (Some (S d)) false :: k_locals (s_cur s1))).
+  { constructor; [repeat split|exact HLi2]. }
+  pose proof (step_piece [] [] _ _ _ _ _ _ _ _ _ _ _ _ _ _ _ _ Hs8 HLh0 ltac:(cbn [length]; lia) ltac:(intros; constructor) Hp7) as P6.
+  pose proof (S_pre_nextT _ _ _ _ _ _ _ _ _ _ _ _ _ _ _ _ _ _ _ _ _ _ Hp7 P6) as Hp8.
+  (* 7. Invoke iter *)
+  pose proof (iter_ok _ _ _ _ _ _ _ _ _ Hsl Hic Hinv Hb0 (p_U _ _ _ _ _ _ _ _ _ _ _ _ Hp8) (p_E _ _ _ _ _ _ _ _ _ _ _ _ Hp8)) as PI.
+  pose proof (S_post_E _ _ _ _ _ _ _ _ _ _ _ _ _ _ _ _ Hp8 PI) as P7. destruct P7 as (T7 & m7 & kl7 & N7 & P7).
+  pose proof (S_pre_nextT _ _ _ _ _ _ _ _ _ _ _ _ _ _ _ _ _ _ _ _ _ _ Hp8 P7) as Hp9.
+  (* 8. the iterator local becomes initialised *)
+  destruct (step_fields _ _ _ _ _ _ Hs8) as (_ & Hl8 & _).
+  assert (Hl9 : k_locals (s_cur s9) = mkKL hid None false :: mkKL (tr_name i) (Some (S d)) false :: k_locals (s_cur s1))
+    by (rewrite (E_post_locals _ _ _ _ _ PI); exact Hl8).
+  assert (Hz9 : k_scope (s_cur s9) <> 0) by (rewrite (p_d _ _ _ _ _ _ _ _ _ _ _ _ Hp9); discriminate).
+  pose proof (mark_initialised_e _ _ _ _ _ _ _ Hmi Hl9 Hz9) as Hs10. rewrite (p_d _ _ _ _ _ _ _ _ _ _ _ _ Hp9) in Hs10.
+  assert (HLh : Lrel Lh (mkKL hid (Some (S d)) false :: mkKL (tr_name i) (Some (S d)) false :: k_locals (s_cur s1))).
+  { constructor; [repeat split|exact HLi2]. }
+  pose proof (step_piece [] [] _ _ _ _ _ _ _ _ _ _ _ _ _ _ _ _ Hs10 HLh ltac:(cbn [length]; lia) ltac:(intros; constructor) Hp9) as P8.
+  pose proof (S_pre_nextT _ _ _ _ _ _ _ _ _ _ _ _ _ _ _ _ _ _ _ _ _ _ Hp9 P8) as Hp10.
+  pose proof (S_postT_seq' _ _ _ _ _ _ _ _ _ _ _ _ _ _ _ _ _ _ _ _ _ _ _ _ _ _ P1 P2 ltac:(possolve)) as Q2.
+  pose proof (S_postT_seq' _ _ _ _ _ _ _ _ _ _ _ _ _ _ _ _ _ _ _ _ _ _ _ _ _ _ Q2 P3 ltac:(possolve)) as Q3.
+  pose proof (S_postT_seq' _ _ _ _ _ _ _ _ _ _ _ _ _ _ _ _ _ _ _ _ _ _ _ _ _ _ Q3 P4 ltac:(possolve)) as Q4.
+  pose proof (S_postT_seq' _ _ _ _ _ _ _ _ _ _ _ _ _ _ _ _ _ _ _ _ _ _ _ _ _ _ Q4 P5 ltac:(possolve)) as Q5.
+  pose proof (S_postT_seq' _ _ _ _ _ _ _ _ _ _ _ _ _ _ _ _ _ _ _ _ _ _ _ _ _ _ Q5 P6 ltac:(possolve)) as Q6.
+  pose proof (S_postT_seq' _ _ _ _ _ _ _ _ _ _ _ _ _ _ _ _ _ _ _ _ _ _ _ _ _ _ Q6 P7 ltac:(possolve)) as Q7.
+  pose proof (S_postT_seq' _ _ _ _ _ _ _ _ _ _ _ _ _ _ _ _ _ _ _ _ _ _ _ _ _ _ Q7 P8 ltac:(possolve)) as Ppre.
+  (* the position of the loop head *)
+  match type of Hp10 with S_pre _ _ _ _ _ _ ?q _ _ _ _ _ => assert (Hq : q = start) by (unfold start, SN.loop_pre; possolve); rewrite Hq in Hp10 end.
+  (* push_loop *)
+  unfold push_loop, upd in Hpush. inversion Hpush; subst sp. clear Hpush.
+  set (sp := mkS (with_loops (s_cur s10) ((length (k_code (s_cur s10)), k_scope (s_cur s10), k_try_depth (s_cur s10)) :: k_loops (s_cur s10))
+                             ([] :: k_breaks (s_cur s10))) (s_outer s10) (s_classes s10) (s_line s10)) in *.
+  assert (Hsim : sim_loop s10 sp) by (repeat split).
+  assert (Hpsp : S_pre sp Lh (S d) U E fs start (Some lc') base pre infun true).
+  { destruct Hp10. constructor; [exact p_L0|exact p_U0|exact p_E0|exact p_d0|exact p_pos0|exact p_num0|exact p_base0|exact p_fun0| |exact p_len0].
+    unfold lcrel. exists (k_try_depth (s_cur s10)), (k_loops (s_cur s10)), [], (k_breaks (s_cur s10)).
+    cbn [sp s_cur k_loops k_breaks k_try_depth k_code with_loops lc' SN.lc_start SN.lc_depth].
+    rewrite <- p_pos0, p_d0. repeat split; auto. }
+  (* IterNext; SetLocal loop_var; JumpIfStopIter; Pop *)
+  apply emit_op_e in Hin.
+  pose proof (bytes_piece [opb OpIterNext] [SC.IIterNext] _ _ _ _ _ _ _ _ _ _ _ _ _ Hin ltac:(intros; apply crel_one; one_simple) Hpsp) as Pa.
+  pose proof (S_pre_nextT _ _ _ _ _ _ _ _ _ _ _ _ _ _ _ _ _ _ _ _ _ _ Hpsp Pa) as Hpa.
+  apply emit_op8_e in Hsl2.
+  assert (Hlv256 : (N.of_nat lv mod 256 = N.of_nat lv)%N) by (apply N.mod_small; lia).
+  rewrite Hlv256 in Hsl2.
+  pose proof (bytes_piece [opb OpSetLocal; N.of_nat lv] [SC.ISetLocal lv] _ _ _ _ _ _ _ _ _ _ _ _ _ Hsl2
+                ltac:(intros; apply crel_one; split; [reflexivity|]; intros r0; cbn; rewrite Nat2N.id; reflexivity) Hpa) as Pb.
+  pose proof (S_pre_nextT _ _ _ _ _ _ _ _ _ _ _ _ _ _ _ _ _ _ _ _ _ _ Hpa Pb) as Hpb.
+  set (vj := 1 + szb + 3).
+  destruct (jump_piece OpJumpIfStopIter SC.IJumpIfStopIter _ _ _ _ _ _ _ _ _ _ _ _ _ _ _ vj
+              (fun KS FM => proj1 (proj2 (proj2 (one_jumps KS FM vj)))) Hj Hpb) as (Hpj1 & Pc).
+  pose proof (S_pre_nextT _ _ _ _ _ _ _ _ _ _ _ _ _ _ _ _ _ _ _ _ _ _ Hpb Pc) as Hpc.
+  apply emit_op_e in Hpop1.
+  pose proof (bytes_piece [opb OpPop] [SC.IPop] _ _ _ _ _ _ _ _ _ _ _ _ _ Hpop1 ltac:(intros; apply crel_one; one_simple) Hpc) as Pd.
+  pose proof (S_pre_nextT _ _ _ _ _ _ _ _ _ _ _ _ _ _ _ _ _ _ _ _ _ _ Hpc Pd) as Hpd.
+  (* the body *)
+  match type of Hpd with S_pre _ _ _ _ _ _ ?q _ _ _ _ _ => assert (Hq2 : q = posb) by (unfold posb, SN.loop_head; possolve); rewrite Hq2 in Hpd end.
+  pose proof (blk_ok b _ _ _ _ _ _ _ _ _ _ _ _ _ _ _ _ _ _ _ _ _ _ HLb Hsup Hf Hpb0 Eb Hbs2 Hbb Hes1 Hpd) as Pe.
+  destruct Pe as (Tb & mb & klb & Nb & Pe).
+  pose proof (S_pre_nextT _ _ _ _ _ _ _ _ _ _ _ _ _ _ _ _ _ _ _ _ _ _ Hpd Pe) as Hpe.
+  destruct (S_postT_len _ _ _ _ _ _ _ _ _ _ _ _ _ _ _ Pe) as (Hlb & _).
+  (* Loop *)
+  apply emit_loop_e in Hel. rewrite <- (p_pos _ _ _ _ _ _ _ _ _ _ _ _ Hpe) in Hel.
+  cbn [sp s_cur k_code with_loops] in Hel. rewrite <- (p_pos _ _ _ _ _ _ _ _ _ _ _ _ Hp10) in Hel.
+  replace (posb + SC.code_size cblock + 1 - start + 2) with (SC.code_size (SN.loop_head lv 0) + szb + 3) in Hel
+    by (unfold posb; rewrite Hszb; lia).
+  pose proof (bytes_piece _ [SC.ILoop (SC.code_size (SN.loop_head lv 0) + szb + 3)] _ _ _ _ _ _ _ _ _ _ _ _ _ Hel
+                ltac:(intros; apply crel_one; apply one_jumps) Hpe) as Pf.
+  rewrite <- Hq2 in Pe.
+  pose proof (S_postT_seq' _ _ _ _ _ _ _ _ _ _ _ _ _ _ _ _ _ _ _ _ _ _ _ _ _ _ Pa Pb ltac:(possolve)) as R2.
+  pose proof (S_postT_seq' _ _ _ _ _ _ _ _ _ _ _ _ _ _ _ _ _ _ _ _ _ _ _ _ _ _ R2 Pc ltac:(possolve)) as R3.
+  pose proof (S_postT_seq' _ _ _ _ _ _ _ _ _ _ _ _ _ _ _ _ _ _ _ _ _ _ _ _ _ _ R3 Pd ltac:(possolve)) as R4.
+  pose proof (S_postT_seq' _ _ _ _ _ _ _ _ _ _ _ _ _ _ _ _ _ _ _ _ _ _ _ _ _ _ R4 Pe ltac:(possolve)) as R5.
+  pose proof (S_postT_seq' _ _ _ _ _ _ _ _ _ _ _ _ _ _ _ _ _ _ _ _ _ _ _ _ _ _ R5 Pf ltac:(rewrite <- Hq2; possolve)) as R6.
+  (* patch the JumpIfStopIter *)
+  set (Bl := opb OpLoop :: u16le (SC.code_size (SN.loop_head lv 0) + szb + 3)) in *.
+  eapply (S_postT_eq _ ((map IB [opb OpIterNext] ++ map IB [opb OpSetLocal; N.of_nat lv] ++ [IB (opb OpJumpIfStopIter)])
+                         ++ IJ pj vj :: (map IB [opb OpPop] ++ Tb ++ map IB Bl))) in R6;
+    [|repeat rewrite <- app_assoc; reflexivity|reflexivity].
+  pose proof (resolve_piece _ _ _ _ _ _ _ _ _ _ _ _ _ _ _ _ _ _ _ _ R6 (p_pos _ _ _ _ _ _ _ _ _ _ _ _ Hpsp) Hpj
+                ltac:(rewrite !raw_app, !app_length, !raw_IB, Hlb; unfold vj, Bl, u16le; cbn [length]; rewrite Hszb; lia)) as R7.
+  pose proof (S_pre_nextT _ _ _ _ _ _ _ _ _ _ _ _ _ _ _ _ _ _ _ _ _ _ Hpsp R7) as Hpg.
+  apply emit_op_e in Hpop2.
+  pose proof (bytes_piece [opb OpPop] [SC.IPop] _ _ _ _ _ _ _ _ _ _ _ _ _ Hpop2 ltac:(intros; apply crel_one; one_simple) Hpg) as Ph.
+  pose proof (S_postT_seq' _ _ _ _ _ _ _ _ _ _ _ _ _ _ _ _ _ _ _ _ _ _ _ _ _ _ R7 Ph ltac:(possolve)) as R8.
+  destruct (S_postT_len _ _ _ _ _ _ _ _ _ _ _ _ _ _ _ R8) as (_ & Hlen8).
+  (* pop_loop: the pending breaks of the body get the distance to here *)
+  assert (Hex : SN.lc_exit lc' = length (k_code (s_cur sq))).
+  { rewrite Hlen8, <- (p_pos _ _ _ _ _ _ _ _ _ _ _ _ Hpsp). cbn [lc' SN.lc_exit]. unfold posb, SN.loop_head.
+    repeat rewrite ScopeSim.code_size_app. cbn [SC.code_size SC.isize]. rewrite <- Hszb. lia. }
+  assert (HnT8 : noIJ ((((map IB [opb OpIterNext] ++ map IB [opb OpSetLocal; N.of_nat lv] ++ [IB (opb OpJumpIfStopIter)]) ++
+                          IB (N.modulo (N.of_nat vj) 256) :: IB (N.div (N.of_nat vj) 256) :: map IB [opb OpPop] ++ Tb ++ map IB Bl)) ++ map IB [opb OpPop])).
+  { unfold noIJ in *.
+    repeat (first [assumption | apply Forall_app; split | apply Forall_cons; [exact I|] | apply Forall_nil | apply noIJ_IB]). }
+  pose proof (pop_loop_ok _ _ _ _ _ _ sr _ _ _ lc _ _ _ _ _ _ _ _ R8 HnT8 (p_pos _ _ _ _ _ _ _ _ _ _ _ _ Hpsp) Hsim eq_refl eq_refl Hpl Hex) as Pm.
+  (* the scope of the loop ends *)
+  pose proof (S_pre_nextT _ _ _ _ _ _ _ _ _ _ _ _ _ _ _ _ _ _ _ _ _ _ Hp10 Pm) as Hpr.
+  pose proof (end_scope_e _ _ _ _ d Hes2 (p_d _ _ _ _ _ _ _ _ _ _ _ _ Hpr)) as Hs5.
+  pose proof (p_L _ _ _ _ _ _ _ _ _ _ _ _ Hpr) as HLr.
+  destruct (scope_end_agree [] [] d _ _ HLr) as (_ & Hlen).
+  assert (HL5 : Lrel (skipn (length ops) L1) (skipn (length (scope_end_ops d (k_locals (s_cur sr)))) (k_locals (s_cur sr)))).
+  { unfold ops. rewrite <- Hlen. now apply Lrel_skipn. }
+  pose proof (step_piece _ ops _ _ _ _ _ _ _ _ _ _ _ _ _ _ _ _ Hs5 HL5 ltac:(rewrite skipn_length; pose proof (p_len _ _ _ _ _ _ _ _ _ _ _ _ Hpr); lia)
+                ltac:(intros KS FM; now apply scope_end_agree) Hpr) as Pes.
+  pose proof (S_postT_seq' _ _ _ _ _ _ _ _ _ _ _ _ _ _ _ _ _ _ _ _ _ _ _ _ _ _ Ppre Pm ltac:(unfold start, SN.loop_pre; possolve)) as F1.
+  pose proof (S_postT_seq' _ _ _ _ _ _ _ _ _ _ _ _ _ _ _ _ _ _ _ _ _ _ _ _ _ _ F1 Pes ltac:(unfold start, SN.loop_pre; possolve)) as F2.
+  eexists _, _, _. split; cycle 1.
+  - eapply S_postT_eq; [reflexivity| |exact F2].
+    unfold SN.loop_pre, SN.loop_head, vj. repeat rewrite app_nil_r. repeat rewrite <- app_assoc. cbn [app]. reflexivity.
+  - unfold noIJ in *.
+    repeat (first [assumption | apply Forall_app; split | apply Forall_cons; [exact I|] | apply Forall_nil | apply noIJ_IB]).
+Qed.
+
 Lemma S_all : forall s, S_goal s.
 Proof.
   induction s using ScopeCompN.stmt_nind; unfold S_goal;
@@ -1617,6 +2080,7 @@ Proof.
     apply bind_inv in Hc as (u1 & s2 & Hce & Hc). destruct u1.
     unfold parse_variable in Hpv. apply bind_inv in Hpv as (u0 & s0 & Hdv & Hpv). destruct u0. bcur Hpv.
     cbn [ScopeDefs5.nstmt] in Hn. pose proof (p_d _ _ _ _ _ _ _ _ _ _ _ _ Hpre) as Hd.
+    pose proof (declare_variable_len _ _ _ _ _ Hdv) as Hdl. rewrite Hd in Hdl.
     apply declare_variable_e in Hdv as [[Hz ->]|[Hz Hs0]].
     + rewrite Hd in Hz. subst d. cbn [Nat.eqb] in Hn.
       destruct (SN.nexpr cf L e U E) as [[[ce U1] E1]|] eqn:Ee; [|discriminate]. inversion Hn; subst. clear Hn.
@@ -1647,8 +2111,8 @@ Proof.
       injection Hn; intros; subst code L' U' E' fs'. clear Hn.
       rewrite Hd in Hs0.
       assert (P0 : S_post st s0 d pos lc [] (SC.mkLocal (Some x) None false :: L) U E base pre fs).
-      { eapply S_post_step; [exact Hpre|exact Hs0| |intros; constructor].
-        constructor; [repeat split|apply Hpre]. }
+      { eapply S_post_step; [exact Hpre|exact Hs0| | |intros; constructor]; [constructor; [repeat split|apply Hpre]|].
+        cbn [length]. pose proof (p_len _ _ _ _ _ _ _ _ _ _ _ _ Hpre). lia. }
       pose proof (S_pre_next _ _ _ _ _ _ _ _ _ _ _ _ _ _ _ _ _ _ _ Hpre P0) as Hpre0.
       cbn [SC.code_size] in Hpre0. rewrite Nat.add_0_r in Hpre0.
       rewrite (p_d _ _ _ _ _ _ _ _ _ _ _ _ Hpre0) in Hpv.
@@ -1666,8 +2130,8 @@ Proof.
       pose proof (mark_initialised_e _ _ _ _ _ _ _ Hc (eq_sym Eq2) Hz2) as Hs3.
       rewrite (p_d _ _ _ _ _ _ _ _ _ _ _ _ Hpre1) in Hs3.
       assert (P2 : S_post s2 st' d (pos + SC.code_size ce) lc [] (SC.mkLocal (Some x) (Some d) false :: L) U1 E1 base pre fs).
-      { eapply S_post_step; [exact Hpre1|exact Hs3| |intros; constructor].
-        constructor; [|exact HLr]. repeat split; cbn; auto. }
+      { eapply S_post_step; [exact Hpre1|exact Hs3| | |intros; constructor]; [constructor; [|exact HLr]; repeat split; cbn; auto|].
+        pose proof (p_len _ _ _ _ _ _ _ _ _ _ _ _ Hpre1) as X. rewrite <- Eq2 in X. exact X. }
       rewrite <- (app_nil_r ce). change (ce ++ []) with ([] ++ ce ++ []).
       eapply S_post_seq; [exact P0|]. cbn [SC.code_size]. rewrite Nat.add_0_r.
       eapply S_post_seq; [exact P1|exact P2].
@@ -1742,6 +2206,7 @@ Proof.
     unfold parse_variable in Hpv. apply bind_inv in Hpv as (u7 & s0 & Hdv & Hpv). destruct u7. bcur Hpv.
     pose proof (p_d _ _ _ _ _ _ _ _ _ _ _ _ Hpre) as Hd.
     pose proof (L_of_S b H) as HLg.
+    pose proof (declare_variable_len _ _ _ _ _ Hdv) as Hdl. rewrite Hd in Hdl.
     apply declare_variable_e in Hdv as [[Hz ->]|[Hz Hs0]].
     + (* at script level: a global *)
       rewrite Hd in Hz. subst d. cbn [Nat.eqb] in Hn.
@@ -1778,7 +2243,8 @@ Proof.
       injection Hn; intros; subst code L' U' E' fs'. clear Hn.
       rewrite Hd in Hs0.
       assert (P0 : S_post st s0 d pos lc [] (SC.mkLocal (Some f) None false :: L) U E base pre fs).
-      { eapply S_post_step; [exact Hpre|exact Hs0| |intros; constructor]. constructor; [repeat split|apply Hpre]. }
+      { eapply S_post_step; [exact Hpre|exact Hs0| | |intros; constructor]; [constructor; [repeat split|apply Hpre]|].
+      cbn [length]. pose proof (p_len _ _ _ _ _ _ _ _ _ _ _ _ Hpre). lia. }
       pose proof (S_pre_next _ _ _ _ _ _ _ _ _ _ _ _ _ _ _ _ _ _ _ Hpre P0) as Hpre0.
       cbn [SC.code_size] in Hpre0. rewrite Nat.add_0_r in Hpre0.
       rewrite (p_d _ _ _ _ _ _ _ _ _ _ _ _ Hpre0) in Hpv.
@@ -1790,7 +2256,8 @@ Proof.
       pose proof (mark_initialised_e _ _ _ _ _ _ _ Hmi (eq_sym Eq2) Hz0) as Hs1.
       rewrite (p_d _ _ _ _ _ _ _ _ _ _ _ _ Hpre0) in Hs1.
       assert (P1 : S_post s0 s2 d pos lc [] (SC.mkLocal (Some f) (Some d) false :: L) U E base pre fs).
-      { eapply S_post_step; [exact Hpre0|exact Hs1| |intros; constructor]. constructor; [|exact HLr]. repeat split; cbn; auto. }
+      { eapply S_post_step; [exact Hpre0|exact Hs1| | |intros; constructor]; [constructor; [|exact HLr]; repeat split; cbn; auto|].
+        pose proof (p_len _ _ _ _ _ _ _ _ _ _ _ _ Hpre0) as X. rewrite <- Eq2 in X. exact X. }
       pose proof (S_pre_next _ _ _ _ _ _ _ _ _ _ _ _ _ _ _ _ _ _ _ Hpre0 P1) as Hpre1.
       cbn [SC.code_size] in Hpre1. rewrite Nat.add_0_r in Hpre1.
       edestruct func_ok as (Q1 & Hnd); [exact HLg|exact Hsup|exact Hf|exact Hpb|exact Ef|exact Hnc|exact Hbs|exact Hcp|exact Hbody|exact Hfin|exact Hclo|exact Hpre1|].
@@ -1805,23 +2272,30 @@ Proof.
         destruct (Nat.eqb_spec d 0) as [Hz'|_]; [contradiction|].
         unfold mark_last_initialised in Hdef.
         destruct (k_locals (s_cur s9)) as [|kk kr] eqn:Ekl.
-        - eapply S_post_step; [exact Hpre2| |exact HL2|intros; constructor].
+        - eapply S_post_step; [exact Hpre2| |exact HL2|cbn; lia|intros; constructor].
           eapply upd_step; [exact Hdef| |]; cbv beta; rewrite Ekl; [reflexivity|]. unfold rest. cbn.
           rewrite Ekl, (p_d _ _ _ _ _ _ _ _ _ _ _ _ Hpre2). reflexivity.
-        - eapply S_post_step; [exact Hpre2| | |intros; constructor].
+        - eapply S_post_step; [exact Hpre2| | | |intros; constructor].
           + eapply upd_step; [exact Hdef| |]; cbv beta; rewrite Ekl; [reflexivity|]. unfold rest. cbn.
             rewrite (p_d _ _ _ _ _ _ _ _ _ _ _ _ Hpre2). reflexivity.
           + (* the head local is already initialised at depth d: marking it again changes nothing *)
             rewrite Hl2' in Hnd. inversion Hnd as [|a1 b1 a2 b2 [Hn1 Hn2] Hn3]. subst.
-            destruct kk as [nk dk ck]. cbn in Hn1, Hn2. subst. cbn. exact HL2. }
+            destruct kk as [nk dk ck]. cbn in Hn1, Hn2. subst. cbn. exact HL2.
+          + pose proof (p_len _ _ _ _ _ _ _ _ _ _ _ _ Hpre2) as X. rewrite Ekl in X. exact X. }
       change [ci] with ([] ++ [] ++ [ci] ++ []).
       eapply S_post_seq; [exact P0|]. cbn [SC.code_size]. rewrite Nat.add_0_r.
       eapply S_post_seq; [exact P1|]. cbn [SC.code_size]. rewrite Nat.add_0_r.
       eapply S_post_seq; [exact Q1|exact Q2].
   - (* SLam *)
     exact (lam_ok x ps b (L_of_S b H) infun top inloop Hsup Hf Hp L d U E fs pos lc code L' U' E' fs' st st' base pre Hn Hc Hpre).
+  - (* SLoop *)
+    exact (loop_ok i n b (L_of_S b H) infun top inloop Hsup Hf Hp L d U E fs pos lc code L' U' E' fs' st st' base pre Hn Hc Hpre).
   - (* SIf *)
     exact (if_ok a c t e (L_of_S t H) (L_of_S e H0) infun top inloop Hsup Hf Hp L d U E fs pos lc code L' U' E' fs' st st' base pre Hn Hc Hpre).
+  - (* SBreak *)
+    exact (break_ok infun top inloop Hsup Hf Hp L d U E fs pos lc code L' U' E' fs' st st' base pre Hn Hc Hpre).
+  - (* SContinue *)
+    exact (continue_ok infun top inloop Hsup Hf Hp L d U E fs pos lc code L' U' E' fs' st st' base pre Hn Hc Hpre).
   - (* SReturn *)
     cbn [ScopeDefs5.stmt7] in Hf. apply andb_prop in Hf as [Hin Hf]. subst infun.
     cbn [stmt_repr_ok] in Hp. cbn [ScopeDefs5.nstmt] in Hn.
@@ -1880,10 +2354,11 @@ Proof.
     - exists [], []. split; reflexivity.
     - reflexivity.
     - discriminate.
-    - exact I. }
+    - exact I.
+    - cbn. lia. }
   assert (HS : Forall S_goal p) by (apply Forall_forall; intros; apply S_all).
   pose proof (L_of_S p HS _ _ _ Hsup H7 Hp _ _ _ _ _ _ _ _ _ _ _ _ _ _ _ _ Hnl Hrun0 Hpre) as P.
-  destruct P as (T & more & kl' & HnT & Hg & Hw & Hh & HL' & HU' & HE' & HO' & fs0' & fm' & Hd' & Hfs' & Hk).
+  destruct P as (T & more & kl' & HnT & Hg & Hw & Hh & HL' & HU' & HE' & HO' & Hnl' & fs0' & fm' & Hd' & Hfs' & Hk).
   specialize (Hh eq_refl). cbn [app] in Hfs'. subst fs'.
   destruct (gstep_fields _ _ _ _ _ _ _ _ Hg) as (Hc1 & _ & _ & Hu1 & _ & Hk1 & Ht1 & _ & _ & Ha1).
   destruct Hg as (Hcode & _).
@@ -1927,6 +2402,67 @@ Proof.
 Qed.
 
 Print Assumptions C06_full_compile_scope_correct_stage5_sup_partial.
+
+(* every statement of the stage-5 fragment is covered by the induction *)
+Lemma stmt7_sup : forall s j i t l, ScopeDefs5.stmt7 j i t l s = true -> sup s = true.
+Proof.
+  assert (G : forall b, Forall (fun s => forall j i t l, ScopeDefs5.stmt7 j i t l s = true -> sup s = true) b ->
+              forall j i t l, forallb (ScopeDefs5.stmt7 j i t l) b = true -> forallb sup b = true).
+  { induction 1 as [|a r Ha Hr IH]; intros j i t l Hf; [reflexivity|]. cbn [forallb] in *. apply andb_prop in Hf as [H1 H2].
+    rewrite (Ha _ _ _ _ H1), (IH _ _ _ _ H2). reflexivity. }
+  induction s using ScopeCompN.stmt_nind; intros j0 i0 t0 l0 Hs; cbn [ScopeDefs5.stmt7 sup] in *; try reflexivity; try discriminate.
+  - exact (G _ H _ _ _ _ Hs).
+  - exact (G _ H _ _ _ _ Hs).
+  - apply andb_prop in Hs as [Hs _]. exact (G _ H _ _ _ _ Hs).
+  - exact (G _ H _ _ _ _ Hs).
+  - apply andb_prop in Hs as [Hs He]. apply andb_prop in Hs as [_ Ht]. rewrite (G _ H _ _ _ _ Ht), (G _ H0 _ _ _ _ He). reflexivity.
+  - apply andb_prop in Hs as [Hb Hh]. rewrite (G _ H _ _ _ _ Hb), (G _ H0 _ _ _ _ Hh). reflexivity.
+Qed.
+
+(* THE BRIDGE, the whole stage-5 fragment: whenever compile_scope accepts a program of the fragment and the full compiler
+   model accepts its translation (it rejects only when one of its size limits is exceeded: > 65536 constants, jumps
+   > 65535 bytes, > 255 arguments / parameters - limits compile_scope does not have), FullCompile's function TREE decodes,
+   function by function in finalise order, to exactly compile_scope's function table. *)
+Theorem bridge_C06_stage5 : forall cf p funs f,
+  SC.c_catch_pops cf = false -> SC.c_break_pops_first cf = true ->
+  forallb (ScopeDefs5.stmt7 true false true false) p = true -> repr_ok p = true ->
+  SC.compile_scope cf p = Some funs -> compile_program (tr_prog p) = COk f ->
+  decode_tree f = Some funs.
+Proof.
+  intros cf p funs f Hcp Hbp H7 Hr Hcs Hc. apply (bridge_C06_sup_partial cf Hcp p funs f Hbp); auto.
+  clear -H7. induction p as [|a r IH]; [reflexivity|]. cbn [forallb] in *. apply andb_prop in H7 as [H1 H2].
+  rewrite (stmt7_sup _ _ _ _ _ H1), (IH H2). reflexivity.
+Qed.
+
+Print Assumptions bridge_C06_stage5.
+
+(* the stage-5 correctness theorem as a statement about the decoded output of the FULL compiler model *)
+Theorem C06_full_compile_scope_correct_stage5 : forall p funs f fuel st en c,
+  forallb (ScopeDefs5.stmt7 true false true false) p = true -> repr_ok p = true ->
+  SC.compile_scope ScopeRun.the_cfg p = Some funs -> compile_program (tr_prog p) = COk f ->
+  SL.exec_list fuel p [] true SL.s_empty = (st, en, c) -> (c = SL.CNorm \/ exists v, c = SL.CThrow v) ->
+  exists funs', decode_tree f = Some funs' /\
+    exists n, forall k, SC.Gen.run_funs SC.bk_m ScopeRun.the_cfg (n + k) funs' = SL.eval_cells_fuel fuel p.
+Proof.
+  intros p funs f fuel st en c H7 Hp Hcs Hcp He Hc.
+  exists funs. split; [exact (bridge_C06_stage5 ScopeRun.the_cfg p funs f eq_refl eq_refl H7 Hp Hcs Hcp)|].
+  exact (ScopeStage5.compile_scope_correct_stage5 ScopeRun.the_cfg p funs fuel st en c eq_refl eq_refl eq_refl H7 Hcs He Hc).
+Qed.
+
+Print Assumptions C06_full_compile_scope_correct_stage5.
+
+(* the example of FullBridgeC06.v (closure over a try-block local, `for` with continue and a break that pops a local, try / catch)
+   and ScopeStage5.stage5_example (7 functions) through the theorem *)
+Example bridge_stage5_examples :
+  (exists funs f, SC.compile_scope ScopeRun.the_cfg ScopeStage5.stage5_example = Some funs /\
+                  compile_program (tr_prog ScopeStage5.stage5_example) = COk f /\ decode_tree f = Some funs /\ length funs = 7).
+Proof.
+  destruct (SC.compile_scope ScopeRun.the_cfg ScopeStage5.stage5_example) as [funs|] eqn:Es; [|vm_compute in Es; discriminate].
+  destruct (compile_program (tr_prog ScopeStage5.stage5_example)) as [f|l m] eqn:Ef; [|vm_compute in Ef; discriminate].
+  exists funs, f. split; [reflexivity|]. split; [reflexivity|]. split.
+  - exact (bridge_C06_stage5 ScopeRun.the_cfg ScopeStage5.stage5_example funs f eq_refl eq_refl eq_refl ltac:(vm_compute; reflexivity) Es Ef).
+  - vm_compute in Es. inversion Es; subst funs. reflexivity.
+Qed.
 
 (* the hypotheses are satisfiable: three function levels, a body local captured by an inner function, a variable of
    the outermost function captured through the middle one, a self-recursive local fn, blocks, return, throw *)
